@@ -38,8 +38,22 @@
          [small_release_dinv], [resize_small_to_zero_dinv].
      9   Histories with the truncation of small streams: [ResizeCaseC],
          [step_okD], [wf_data_history4] (the largest fragment); Example9.
-   What remains: small growth with mini-sector allocation, first small writes,
-   both migrations, removal of a small stream (see the report).
+    10   Removal of a small stream: [remove_small_stream_w2].
+    11   The mini level, allocation side: [extend_tight], [mchain_grow_tight],
+         [mchain_write_go_tight] (nothing but the new members is appended to
+         the MiniFAT), [small_grow_dinv], [resize_small_alloc_dinv],
+         [resize_empty_small_dinv], [write_small_alloc_dinv],
+         [write_empty_small_dinv].
+    12   Histories without migrations: [step_okE], [wf_data_history5];
+         Example10 = DataPersist2's Example4.hist2 (with the removal of "/a").
+    13   Migration small -> large: [small_to_big_dinv],
+         [resize_small_to_big_dinv], [write_small_to_big_dinv].
+    14   The largest fragment: [step_okF], [wf_data_history6] = [hist_ok2]
+         without the migration large -> small (ResizeCase 9); Example11.
+    15   Migration large -> small: [big_to_small_dinv], [resize_big_to_small_dinv].
+    16   All of DataPersist2's histories: [resize_case_w2], [write_case_w2],
+         [step_w2_full], [history_w2_full], [wf_data_history_full] over
+         [hist_ok2] itself; Example12 = DataPersist2's Example6.hist3.
    Stdlib only; no axioms; every proof is complete. *)
 From Coq Require Import List NArith ZArith Lia Bool ZifyN ZifyBool Permutation FinFun.
 From Cfb.model Require Import Base Names Time DirEnt State Alloc Dir Mini Store Handle Open Cfb.
@@ -2737,6 +2751,1952 @@ Module Example9.
   Proof. repeat split; vm_compute; reflexivity. Qed.
 End Example9.
 
+
+(* ================================================================== *)
+(* 10. removal of a small stream                                       *)
+(* ================================================================== *)
+Theorem remove_small_stream_w2 : forall p s s' id e,
+  W2 s -> api_remove_stream p s = (s', Ok tt) ->
+  MutRefine.id_of_path s p = Some id -> nthN (dirs s) id = Some e ->
+  0 < d_len e -> d_len e < MINI_STREAM_CUTOFF -> W2 s'.
+Proof.
+  intros p s s' id e (HT0 & HD & HFA & HTd) H Hidp He Hpos Hcut.
+  pose proof H as H0.
+  destruct (remove_small_stream_cohtree p s s' id e HT0 H0 Hidp He Hpos Hcut) as (HT' & _ & Hun0 & _).
+  split; [exact HT'|]. split; [|split; [|exact (remove_stream_tidy_data p s s' HTd H0)]];
+  destruct HT0 as [HCD HTP];
+  pose proof HCD as [HC (r & rids & mfids & dids & HSD) HF Hax];
+  pose proof HSD as [SW Hmdj];
+  pose proof (SA.sw_m _ _ _ _ _ _ SW) as W;
+  pose proof HTP as [_ _ (t & HT & HU)];
+  destruct (MutRefine.remove_stream_refines ctrue ctrue p 0 s s' t HT HU (fun _ _ _ c => c) H)
+    as (t' & _ & HTt' & HU');
+  unfold api_remove_stream, remove_stream_names in H;
+  destruct (MutRefine.names_lookup_inv _ _ _ _ _ _ H) as (names & r0 & En & Hlk & HK);
+  (destruct r0 as [id0|]; [|discriminate HK]);
+  assert (id0 = id) by (unfold MutRefine.id_of_path in Hidp; rewrite En, Hlk in Hidp; congruence);
+  subst id0;
+  binv HK e1 s0 H1 H2; apply dir_entry_inv in H1; destruct H1 as [-> He1];
+  assert (e1 = e) by congruence; subst e1;
+  (destruct (objtype_eqb (d_type e) TStream) eqn:T1; cbn [negb] in H2; [|discriminate H2]);
+  (destruct (d_child e =? NO_STREAM) eqn:Ch; cbn [negb] in H2; [|discriminate H2]);
+  apply objtype_eqb_true in T1;
+  (destruct (d_len e <? MINI_STREAM_CUTOFF) eqn:Ecut; [|lia]);
+  binv H2 u1 s1 H1 H2; destruct u1;
+  assert (Hse : SA.small_entry e) by (split; [exact T1|split; assumption]);
+  destruct (SA.sw_small _ _ _ _ _ _ SW id e (SA.noX_not _) He Hse) as (mids & Hc & Hcov);
+  destruct (SA.free_small_chain s r rids mfids dids id e mids SW He Hse Hc)
+    as (s1' & r1 & Efree & SW1 & Sh1 & He1' & Ho1);
+  rewrite H1 in Efree; injection Efree as <-;
+  pose proof (MutRefine.free_mini_chain_rootlen _ _ _ _ H1) as HRL;
+  pose proof H1 as Erun; unfold free_mini_chain in Erun; rewrite bind_get in Erun;
+  pose proof (WalkProofs.chain_ids_path _ _ _ Hc) as Hp;
+  destruct (free_mini_chain_go_coh mids _ (d_start e) s r rids mfids dids s1 HC (CohData'_MD s HCD)
+              (ax_mfree s Hax) W Hp ltac:(intros _; exact (ax_mheads s Hax id e He Hse)) Erun)
+    as (HC1 & Hmd1 & Hfu1 & Hmono & F1);
+  pose proof (free_mini_chain_go_back mids _ (d_start e) s r rids mfids dids s1 HC (CohData'_MD s HCD)
+                (ax_mfree s Hax) W Hp ltac:(intros _; exact (ax_mheads s Hax id e He Hse)) Erun) as Hback;
+  destruct (SA.free_mini_chain_go_spec mids (S (S (length (minifat s)))) (d_start e) s r rids mfids dids W
+              Hp (path_length_fuel _ _ _ Hp))
+    as (sx & rx & Ex & _ & _ & _ & _ & _ & Lx & Kx);
+  rewrite Erun in Ex; injection Ex as <-;
+  pose proof F1 as (G1 & G2 & G3 & G4 & G5 & G6 & G7 & G9 & _);
+  pose proof (TreePart_rootlen s s1 HTP HC1 HRL G1) as HTP1;
+  (destruct (lastN names) as [nm|] eqn:Hlast; [|discriminate H2]);
+  destruct (MutRefine.lookup_inv _ _ _ _ _ _ H2) as (pr & Hlkp & H3); clear H2;
+  (destruct pr as [pid|]; [|discriminate H3]);
+  (destruct (remove_entry_coh s1 s' names id e nm pid HC1) as (HC' & HTP' & Hun & Hidr & Hst & dd & Hdd & F);
+    try assumption;
+    [intros d m Hd Hm; apply avoids_sym; exact (Hmd1 d m Hd Hm)
+    |rewrite (MutRefine.rootlen_lookup _ _ HRL); exact Hlk
+    |rewrite T1; discriminate
+    |exists t'; split; assumption
+    |]);
+  assert (dd = dids) by exact (swfx_dir_ids _ _ _ _ _ _ _ SW1 Hdd); subst dd;
+  destruct (swfx_payload s1 s' r1 rids mfids dids id dids SW1 F Hun Hidr Hst) as (r' & Hr' & Pr & SW');
+  pose proof F as (F1' & F2 & F3 & F4 & F5 & F6 & F7 & F8 & F9 & F10 & F11 & F12 & F13 & F14 & F15);
+  pose proof HRL as (RL & RO & _);
+  (destruct (small_release_dinv s s' r r' rids mfids dids id e dirent_unallocated mids
+               HCD HSD HD HFA (proj1 HT') (conj SW' Hmdj)) as [HD' HFA'];
+    [congruence
+    |congruence
+    |congruence
+    |unfold slen; rewrite F1', G1; reflexivity
+    |rewrite F15; exact RL
+    |exact He
+    |exact Hun
+    |exact Hse
+    |exact Hc
+    |intros (Htt & _); discriminate Htt
+    |intros (Htt & _); discriminate Htt
+    |intros Htt; discriminate Htt
+    |intros j a Hj Hr Ha; rewrite <- (RO j Hr) in Ha; destruct (Hst j a Hj Ha) as (b & Hb & Pb);
+       exists b; split; [exact Hb|exact (same_payload_tsl a b Pb)]
+    |rewrite F8; exact Lx
+    |intros y w Hy Hcy Hw; rewrite F8; exact (Kx y w Hy Hcy Hw)
+    |intros y w Hy Hw; rewrite F8 in Hy; exact (Hback y w Hy Hw)
+    |]);
+  assumption.
+Qed.
+
+(* ================================================================== *)
+(* 11. the mini level, allocation side                                 *)
+(* ================================================================== *)
+
+(* one more mini sector: every index of the new MiniFAT is an index of the old
+   one or the mini sector just allocated (nothing else is appended) *)
+Lemma extend_tight : forall s mids r rids mfids dids,
+  SA.MWf_at s r rids mfids dids ->
+  path (minifat s) (hd END_OF_CHAIN mids) mids ->
+  SA.mroom s rids mfids 1 ->
+  exists s' x,
+    SA.extend_or_begin mids s = (s', Ok x) /\
+    forall y, y < lenN (minifat s') -> y < lenN (minifat s) \/ y = x.
+Proof.
+  intros s mids r rids mfids dids W Hp Hroom.
+  destruct (SA.alloc_mini_step s END_OF_CHAIN r rids mfids dids W Hroom)
+    as (s1 & x & Ea & Hfresh & Hxle & Hmf1 & Hmfr1 & Hxni & W1 & Hsh1 & Hld1 & Hdj1 & Hfr1 & Hroom1).
+  assert (Hxmids : ~ In x mids) by (intro Hin; exact (SA.path_not_fresh _ _ _ _ Hp Hin Hfresh)).
+  assert (Ht1 : forall y, y < lenN (minifat s1) -> y < lenN (minifat s) \/ y = x).
+  { intros y Hy. rewrite Hmf1 in Hy. unfold fat_set in Hy.
+    destruct (x =? lenN (minifat s)) eqn:Ex.
+    - rewrite lenN_app in Hy. cbn [lenN] in Hy. apply N.eqb_eq in Ex. lia.
+    - rewrite lenN_updN in Hy. left. exact Hy. }
+  unfold SA.extend_or_begin.
+  destruct (lastN mids) as [last|] eqn:Elast.
+  - pose proof (lastN_Some_snoc _ _ _ Elast) as Emids.
+    pose proof Hp as Hp0. rewrite Emids in Hp0.
+    pose proof (StoreProofs.path_last_EOC _ _ _ _ Hp0) as Hnx.
+    pose proof (WalkProofs.next_of_lt _ _ _ Hnx) as Hlast_lt.
+    assert (Hlast_ne : last <> END_OF_CHAIN).
+    { apply StoreProofs.path_mid in Hp0. inversion Hp0 as [|cur nx l' Hc Hn' Hp']. exact Hc. }
+    assert (Hlen1 : lenN (minifat s) <= lenN (minifat s1)).
+    { rewrite Hmf1. unfold fat_set. destruct (x =? lenN (minifat s)); [rewrite lenN_app|rewrite lenN_updN]; lia. }
+    destruct (SA.set_minifat_fr s1 last x mfids) as (s2 & E2 & Hsh2 & Hmf2 & _).
+    { lia. } { apply W1. } { apply W1. }
+    { pose proof (SA.mw_mcap _ _ _ _ _ W1). lia. }
+    assert (Hlen2 : lenN (minifat s2) = lenN (minifat s1)).
+    { rewrite Hmf2. unfold fat_set. destruct (last =? lenN (minifat s1)) eqn:Ei; [lia|apply lenN_updN]. }
+    exists s2, x. split.
+    + unfold extend_mini_chain.
+      destruct (last =? END_OF_CHAIN) eqn:E; [apply N.eqb_eq in E; contradiction|].
+      rewrite bind_get. rewrite (StoreProofs.find_last_at_end _ _ Hnx). rewrite bind_lift_ok.
+      rewrite (bind_exec _ _ _ _ _ Ea). rewrite (bind_exec _ _ _ _ _ E2). reflexivity.
+    + intros y Hy. rewrite Hlen2 in Hy. exact (Ht1 y Hy).
+  - exists s1, x. split; [exact Ea|exact Ht1].
+Qed.
+
+Lemma mchain_grow_tight : forall k s mids o r rids mfids dids,
+  SA.MWf_at s r rids mfids dids ->
+  path (minifat s) (hd END_OF_CHAIN mids) mids ->
+  SA.mroom s rids mfids (N.of_nat k) ->
+  exists s' news,
+    mchain_grow k (mkMChain mids o) s = (s', Ok (mkMChain (mids ++ news) o)) /\
+    forall y, y < lenN (minifat s') -> y < lenN (minifat s) \/ In y news.
+Proof.
+  induction k as [|k IH]; intros s mids o r rids mfids dids W Hp Hroom.
+  - exists s, []. cbn [mchain_grow]. rewrite app_nil_r. split; [reflexivity|]. intros y Hy. left. exact Hy.
+  - assert (Hr1 : SA.mroom s rids mfids 1) by (eapply SA.mroom_le; [|exact Hroom]; lia).
+    destruct (SA.mini_extend_step s mids r rids mfids dids ROOT_STREAM_ID W Hp Hr1)
+      as (s1 & x & r1 & E1 & W1 & P1 & F1 & N1 & M1 & B1 & R1).
+    destruct (extend_tight s mids r rids mfids dids W Hp Hr1) as (s1' & x' & E1' & T1).
+    rewrite E1 in E1'. injection E1' as <- <-.
+    assert (Hrk : SA.mroom s1 rids mfids (N.of_nat k)).
+    { apply R1. replace (N.of_nat k + 1) with (N.of_nat (S k)) by lia. exact Hroom. }
+    destruct (IH s1 (mids ++ [x]) o r1 rids mfids dids W1 P1 Hrk) as (s' & news & E' & T').
+    rewrite <- app_assoc in E'. cbn [app] in E'.
+    exists s', (x :: news). split.
+    + cbn [mchain_grow mc_ids mc_off]. unfold SA.extend_or_begin in E1.
+      rewrite (bind_exec _ _ _ _ _ E1). exact E'.
+    + intros y Hy. destruct (T' y Hy) as [H1|H1]; [|right; right; exact H1].
+      destruct (T1 y H1) as [H2|H2]; [left; exact H2|right; left; symmetry; exact H2].
+Qed.
+
+(* ---- the table-level step: a small (or empty) stream gets more mini
+   sectors; the FAT does not move; new members were FREE or are appended;
+   nothing else is appended ---- *)
+Section SmallGrow.
+Variables s s' : cstate.
+Variables (r r' : dirent) (rids mfids dids : list N).
+Variables (id : N) (e e' : dirent) (mids news : list N).
+Hypothesis HCD : CohData' s.
+Hypothesis HD : DInv s.
+Hypothesis HFA : FreeAll s.
+Hypothesis HCD' : CohData' s'.
+Hypothesis W : SA.MWf_at s r rids mfids dids.
+Hypothesis W' : SA.MWf_at s' r' rids mfids dids.
+Hypothesis Hsh : same_shape s s'.
+Hypothesis Hlen : lenN (dirs s') = lenN (dirs s).
+Hypothesis Hoth : forall j, j <> ROOT_STREAM_ID -> j <> id -> nthN (dirs s') j = nthN (dirs s) j.
+Hypothesis He : nthN (dirs s) id = Some e.
+Hypothesis He' : nthN (dirs s') id = Some e'.
+Hypothesis Ht : d_type e = TStream.
+Hypothesis Hold : (SA.small_entry e /\ chain_ids_of (minifat s) (d_start e) = Ok mids) \/
+                  (d_len e = 0 /\ mids = []).
+Hypothesis Hsm' : SA.small_entry e'.
+Hypothesis Hch' : chain_ids_of (minifat s') (d_start e') = Ok (mids ++ news).
+Hypothesis Hexact : lenN (mids ++ news) = ceil_div (d_len e') MINI_SECTOR_LEN.
+Hypothesis Hmlen : lenN (minifat s) <= lenN (minifat s').
+Hypothesis Hframe : forall y, ~ In y (mids ++ news) -> y < lenN (minifat s) ->
+  nthN (minifat s') y = nthN (minifat s) y.
+Hypothesis Hfresh : forall x, In x news -> SA.fresh (minifat s) x.
+Hypothesis Htight : forall y, y < lenN (minifat s') -> y < lenN (minifat s) \/ In y (mids ++ news).
+
+Let HC : Coherent s := cd_coh s HCD.
+Let HC' : Coherent s' := cd_coh s' HCD'.
+
+Lemma sg_fields : fat s' = fat s /\ free s' = free s /\ difat s' = difat s /\
+  dir_start s' = dir_start s /\ minifat_start s' = minifat_start s /\ slen s' = slen s.
+Proof.
+  destruct Hsh as (_ & Zv & _ & _ & Zfat & Zfree & Zdifat & Zds & Zms).
+  repeat split; try assumption. unfold slen. rewrite Zv. reflexivity.
+Qed.
+
+Lemma sg_idr : id <> ROOT_STREAM_ID.
+Proof. exact (stream_not_root s id e HC He Ht). Qed.
+
+Lemma sg_stream_back : forall j x, nthN (dirs s') j = Some x -> d_type x = TStream -> j <> id ->
+  nthN (dirs s) j = Some x.
+Proof.
+  intros j x Hx Htx Hj. destruct (N.eq_dec j ROOT_STREAM_ID) as [->|Hr].
+  - rewrite (coherent_root_type s' x HC' Hx) in Htx. discriminate Htx.
+  - rewrite <- (Hoth j Hr Hj). exact Hx.
+Qed.
+
+Lemma sg_stream_fwd : forall j x, nthN (dirs s) j = Some x -> d_type x = TStream -> j <> id ->
+  nthN (dirs s') j = Some x.
+Proof.
+  intros j x Hx Htx Hj. destruct (N.eq_dec j ROOT_STREAM_ID) as [->|Hr].
+  - rewrite (coherent_root_type s x HC Hx) in Htx. discriminate Htx.
+  - rewrite (Hoth j Hr Hj). exact Hx.
+Qed.
+
+Lemma sg_old : forall x, mowns s id x -> In x mids.
+Proof.
+  intros x (e0 & l & He0 & _ & Hp & _ & Hl & Hx). assert (e0 = e) by congruence. subst e0.
+  destruct Hold as [[_ Hc]|[Hz _]]; [congruence|lia].
+Qed.
+
+(* the mini chain of another small stream is untouched *)
+Lemma sg_chain : forall j a l, j <> id -> nthN (dirs s) j = Some a -> SA.small_entry a ->
+  chain_ids_of (minifat s) (d_start a) = Ok l -> chain_ids_of (minifat s') (d_start a) = Ok l.
+Proof.
+  intros j a l Hj Ha (Hta & Hp & Hb) Hl.
+  apply (chain_transfer (minifat s)); [exact Hl|exact Hmlen|].
+  intros x Hx. apply Hframe; [|exact (chain_ids_lt _ _ _ _ Hl Hx)].
+  intro Hin. apply in_app_or in Hin. destruct Hin as [Hin|Hin].
+  - apply Hj. apply (di_mini_uniq s HD j id x); [exists a, l; auto 10|].
+    destruct Hold as [[(Hte & Hpe & Hbe) Hc]|[_ ->]]; [|destruct Hin]. exists e, mids. auto 10.
+  - destruct (chain_cell _ _ _ _ Hl Hx) as (v & Hv & Hr). pose proof (Hfresh x Hin v Hv). markers. lia.
+Qed.
+
+Lemma sg_mowns_fwd : forall i x, i <> id -> mowns s i x -> mowns s' i x.
+Proof.
+  intros i x Hi (a & l & Ha & Hta & Hp & Hb & Hl & Hx).
+  exists a, l. split; [exact (sg_stream_fwd i a Ha Hta Hi)|].
+  pose proof (sg_chain i a l Hi Ha (conj Hta (conj Hp Hb)) Hl). auto 10.
+Qed.
+
+Lemma sg_fowns_fwd : forall o x, fowns s o x -> fowns s' o x.
+Proof.
+  destruct sg_fields as (Zfat & _ & Zdifat & Zds & Zms & _).
+  intros o x Ho. destruct o as [| | | |j]; cbn [fowns] in *; rewrite ?Zfat, ?Zdifat, ?Zds, ?Zms; try exact Ho.
+  - destruct Ho as (r0 & l & Hr0 & Hl & Hx).
+    rewrite (SA.mw_root _ _ _ _ _ W) in Hr0. injection Hr0 as <-.
+    rewrite (SA.mw_rch _ _ _ _ _ W) in Hl. injection Hl as <-.
+    exists r', rids. split; [exact (SA.mw_root _ _ _ _ _ W')|]. split; [|exact Hx].
+    rewrite <- Zfat. exact (SA.mw_rch _ _ _ _ _ W').
+  - destruct Ho as (a & l & Ha & Hta & Hb & Hl & Hx).
+    assert (Hj : j <> id).
+    { intros ->. assert (a = e) by congruence. subst a.
+      destruct Hold as [[(_ & _ & Hlt) _]|[Hz _]]; rewrite CUTOFF_val in *; lia. }
+    exists a, l. split; [exact (sg_stream_fwd j a Ha Hta Hj)|]. auto.
+Qed.
+
+Theorem small_grow_dinv : DInv s' /\ FreeAll s'.
+Proof.
+  destruct sg_fields as (Zfat & Zfree & Zdifat & Zds & Zms & Zsl).
+  split; [|exact (freeall_same_tables s s' Zfat Zfree HFA)].
+  destruct Hsm' as (Ht' & Hp' & Hb').
+  apply (cohdata'_exact_dinv s' HCD'). constructor.
+  - intros i x Hx Htx Hl. destruct (N.eq_dec i id) as [->|Hi].
+    + assert (x = e') by congruence. subst x. lia.
+    + exact (di_empty s HD i x (sg_stream_back i x Hx Htx Hi) Htx Hl).
+  - intros i x ids Hx Htx Hb Hl. rewrite Zfat in Hl. rewrite Zsl. destruct (N.eq_dec i id) as [->|Hi].
+    + assert (x = e') by congruence. subst x. lia.
+    + destruct (di_big s HD i x (sg_stream_back i x Hx Htx Hi) Htx Hb) as (l & Hl' & Hll). congruence.
+  - intros i x ids Hx Htx Hp Hb Hl. destruct (N.eq_dec i id) as [->|Hi].
+    + assert (x = e') by congruence. subst x. rewrite Hch' in Hl. injection Hl as <-. exact Hexact.
+    + pose proof (sg_stream_back i x Hx Htx Hi) as Hx0.
+      destruct (di_small s HD i x Hx0 Htx Hp Hb) as (l & Hl' & Hll).
+      pose proof (sg_chain i x l Hi Hx0 (conj Htx (conj Hp Hb)) Hl'). congruence.
+  - intros x v Hv Hnf. rewrite Zfat in Hv. destruct (di_fat_cover s HD x v Hv Hnf) as (o & Ho).
+    exists o. apply sg_fowns_fwd. exact Ho.
+  - intros y w Hy Hw.
+    destruct (in_dec N.eq_dec y (mids ++ news)) as [Hin|Hout].
+    + exists id, e', (mids ++ news). auto 10.
+    + pose proof (nthN_Some_lt _ _ _ _ Hy) as Hlt.
+      destruct (Htight y Hlt) as [Hlt0|Hc]; [|contradiction].
+      rewrite (Hframe y Hout Hlt0) in Hy.
+      destruct (di_mini_cover s HD y w Hy Hw) as (i & Hi). exists i. apply sg_mowns_fwd; [|exact Hi].
+      intros ->. apply Hout. apply in_or_app. left. exact (sg_old y Hi).
+Qed.
+End SmallGrow.
+
+Lemma update_entry_minifat : forall s2 s' id e st ln r rids mfids dids,
+  SA.MWf_at s2 r rids mfids dids -> nthN (dirs s2) id = Some e ->
+  update_entry id st ln s2 = (s', Ok tt) -> minifat s' = minifat s2.
+Proof.
+  intros s2 s' id e st ln r rids mfids dids W2 Hn Eu.
+  destruct (StoreProofs.update_entry_exec s2 id e st ln dids) as (s'' & Eu' & _ & _ & Hmf & _).
+  { exact Hn. }
+  { exact (SA.mw_names _ _ _ _ _ W2 id e Hn). }
+  { exact (SA.mw_dch _ _ _ _ _ W2). }
+  { exact (SA.mw_dgood _ _ _ _ _ W2). }
+  { pose proof (SA.mw_dcap _ _ _ _ _ W2) as Hcap. pose proof (nthN_Some_lt _ _ _ _ Hn).
+    rewrite StoreProofs.DEL_val in *. lia. }
+  assert (s'' = s') by congruence. subst s''. exact Hmf.
+Qed.
+
+Lemma ceil64 : forall n, ceil_div n MINI_SECTOR_LEN = (64 + n - 1) / 64.
+Proof. intro n. unfold ceil_div, MINI_SECTOR_LEN. f_equal. lia. Qed.
+
+(* ---- a small stream grows and takes mini sectors (free list or appended) ---- *)
+Theorem resize_small_alloc_dinv : forall s id V k new_len,
+  CohData' s -> DInv s -> FreeAll s ->
+  small_content s id V -> mini_sectors s id k ->
+  0 < new_len -> new_len < MINI_STREAM_CUTOFF -> k <= SA.msectors new_len ->
+  SA.mini_room s (SA.msectors new_len - k) -> RootFits s (SA.msectors new_len - k) ->
+  exists s', resize id new_len s = (s', Ok tt) /\ CohData' s' /\ DInv s' /\ FreeAll s'.
+Proof.
+  intros s id V k new_len HCD HD HFA Hsc Hk Hpos' Hcut' Hle Hmr Hrf.
+  destruct (resize_small_alloc_cohdata' s id V k new_len HCD Hsc Hk Hpos' Hcut' Hle Hmr Hrf)
+    as (s0 & R0 & HCD0 & _).
+  destruct Hmr as (r0 & rids0 & mfids0 & dids0 & SW0 & Hroom).
+  pose proof HCD as [HC (r & rids & mfids & dids & SW & Hmdj) HF Hax].
+  destruct (swf_witness_fun _ _ _ _ _ _ _ _ _ _ _ SW SW0) as (-> & -> & -> & ->). clear SW0.
+  pose proof (SA.sw_m _ _ _ _ _ _ SW) as W.
+  destruct (SA.small_content_at _ _ _ _ _ _ _ W Hsc) as (e & mids & Hsm).
+  pose proof (mini_sectors_small_at _ _ _ _ _ _ _ Hsm Hk) as Ek. subst k.
+  rewrite <- SA.msectors_ceil in *.
+  set (num := (64 + new_len - 1) / 64) in *.
+  destruct (SA.resize_small_alloc_full s id e r rids mfids dids mids V new_len W Hsm Hpos' Hle Hcut' Hroom)
+    as (s' & news & r' & Hrun & Hsm' & Hlen & W' & Hfresh & M).
+  assert (s0 = s') by congruence. subst s0.
+  destruct (small_at_start _ _ _ _ _ _ Hsm) as (Hne & Hst & Hk0).
+  pose proof Hsm as (Hnth & Ht & Hcut & Hpos & Hch & Hgm & Hle0 & HV).
+  assert (Hmne : mids <> []) by (intros ->; cbn [lenN] in Hk0; lia).
+  assert (Hpath0 : path (minifat s) (d_start e) mids) by (apply WalkProofs.chain_ids_path; exact Hch).
+  pose proof (path_hd_start _ _ _ Hpath0) as Hhd.
+  assert (Hpath : path (minifat s) (hd END_OF_CHAIN mids) mids) by (rewrite <- Hhd; exact Hpath0).
+  destruct (mchain_grow_tight (N.to_nat (num - lenN mids)) s mids 0 r rids mfids dids W Hpath)
+    as (s1 & news1 & Eg & T1).
+  { rewrite N2Nat.id. exact Hroom. }
+  destruct (SA.mchain_grow_spec (N.to_nat (num - lenN mids)) s mids 0 r rids mfids dids ROOT_STREAM_ID W Hpath)
+    as (s1' & news' & r1 & Eg' & Ln & W1 & P1 & _ & M1 & _).
+  { rewrite N2Nat.id. exact Hroom. }
+  rewrite Eg in Eg'. injection Eg' as <- Enw. apply app_inv_head in Enw. subst news'.
+  rewrite N2Nat.id in Ln.
+  set (mall := mids ++ news1) in *.
+  assert (Hhd' : hd END_OF_CHAIN mall = d_start e)
+    by (unfold mall; rewrite SA.hd_app_ne by exact Hmne; symmetry; exact Hhd).
+  assert (Hnum : new_len <= 64 * num /\ 64 * num < new_len + 64) by (unfold num; lia).
+  destruct (SA.zero_fill_small s1 r1 rids mfids dids id mall (d_len e) new_len 0 W1 P1)
+    as (s2 & o2 & Ez & W2 & Hmf2 & Hd2 & _); [unfold mall; rewrite lenN_app; lia|unfold mall; rewrite lenN_app; lia|].
+  pose proof (SA.small_not_root _ _ _ _ _ _ _ W Hnth Ht) as Hidr.
+  assert (Hn2 : nthN (dirs s2) id = Some e).
+  { rewrite Hd2, (SA.mframe_entry _ _ _ _ _ _ id M1 Hidr). exact Hnth. }
+  assert (P2 : path (minifat s2) (hd END_OF_CHAIN mall) mall) by (rewrite Hmf2; exact P1).
+  destruct (SA.finish_small s2 id e r1 rids mfids dids mall new_len W2 Hn2 Ht P2)
+    as (s'' & Eu & _); [lia|lia|unfold mall; rewrite lenN_app; lia|].
+  rewrite Hhd' in Eu.
+  assert (Hrun' : resize id new_len s = (s'', Ok tt)).
+  { refine (resize_small_run s id e mids mall s1 s2 o2 new_len s'' Hnth Ht Hpos Hcut Hne Hpos' Hcut' Hch _ Ez Hhd' Eu).
+    rewrite (SA.mchain_set_len_grow s (mkMChain mids 0) new_len Hcut' Hpos' Hle). cbn [mc_ids].
+    fold num. exact Eg. }
+  assert (s'' = s') by congruence. subst s''.
+  assert (Hmfeq : minifat s' = minifat s1).
+  { rewrite (update_entry_minifat s2 s' id e _ _ r1 rids mfids dids W2 Hn2 Eu). exact Hmf2. }
+  pose proof Hsm' as (Hnth' & Ht' & Hcut2 & Hpos2 & Hch2 & _).
+  cbn [set_start_len d_start] in Hch2.
+  assert (Enews : news = news1).
+  { assert (Hc1 : chain_ids_of (minifat s') (d_start e) = Ok mall).
+    { rewrite Hmfeq, <- Hhd'. apply SA.chain_of_path. exact P1. }
+    rewrite Hch2 in Hc1. injection Hc1 as Hc1. unfold mall in Hc1. apply app_inv_head in Hc1. exact Hc1. }
+  subst news1.
+  pose proof M as (Msh & Mlen & Moth & _ & _ & Mml & Mfr).
+  destruct (small_grow_dinv s s' r r' rids mfids dids id e (set_start_len e (d_start e) new_len) mids news
+              HCD HD HFA HCD0 W W' Msh Mlen) as [HD' HFA']; try assumption.
+  - left. split; [exact (SA.small_at_entry _ _ _ _ _ _ Hsm)|exact Hch].
+  - exact (SA.small_at_entry _ _ _ _ _ _ Hsm').
+  - rewrite ceil64. cbn [set_start_len d_len]. exact Hlen.
+  - intros y Hy. rewrite Hmfeq in Hy. destruct (T1 y Hy) as [H1|H1]; [left; exact H1|].
+    right. apply in_or_app. right. exact H1.
+  - exists s'. auto.
+Qed.
+
+(* ---- the first growth of an empty stream to a small length ---- *)
+Theorem resize_empty_small_dinv : forall s id new_len,
+  CohData' s -> DInv s -> FreeAll s -> SA.empty_stream s id ->
+  0 < new_len -> new_len < MINI_STREAM_CUTOFF ->
+  SA.mini_room s (SA.msectors new_len) -> RootFits s (SA.msectors new_len) ->
+  exists s', resize id new_len s = (s', Ok tt) /\ CohData' s' /\ DInv s' /\ FreeAll s'.
+Proof.
+  intros s id new_len HCD HD HFA Hemp Hpos Hcut Hmr Hrf.
+  destruct (resize_empty_small_cohdata' s id new_len HCD Hemp Hpos Hcut Hmr Hrf) as (s0 & R0 & HCD0 & _).
+  destruct Hemp as (e & He).
+  destruct Hmr as (r0 & rids0 & mfids0 & dids0 & SW0 & Hroom).
+  pose proof HCD as [HC (r & rids & mfids & dids & SW & Hmdj) HF Hax].
+  destruct (swf_witness_fun _ _ _ _ _ _ _ _ _ _ _ SW SW0) as (-> & -> & -> & ->). clear SW0.
+  pose proof (SA.sw_m _ _ _ _ _ _ SW) as W.
+  rewrite <- SA.msectors_ceil in *.
+  set (num := (64 + new_len - 1) / 64) in *.
+  destruct (SA.resize_empty_small_full s id e r rids mfids dids new_len W He Hpos Hcut Hroom)
+    as (s' & news & r' & Hrun & Hsm' & Hlen & W' & Hfresh & M).
+  assert (s0 = s') by congruence. subst s0.
+  pose proof He as (Hnth & Ht & Hst & Hl0).
+  pose proof (SA.small_not_root _ _ _ _ _ _ _ W Hnth Ht) as Hidr.
+  assert (Hnum : new_len <= 64 * num /\ 64 * num < new_len + 64 /\ 0 < num) by (unfold num; lia).
+  assert (Hp0 : path (minifat s) (hd END_OF_CHAIN []) []) by constructor.
+  destruct (mchain_grow_tight (N.to_nat num) s [] 0 r rids mfids dids W Hp0) as (s1 & news1 & Eg & T1).
+  { rewrite N2Nat.id. exact Hroom. }
+  destruct (SA.mchain_grow_spec (N.to_nat num) s [] 0 r rids mfids dids ROOT_STREAM_ID W Hp0)
+    as (s1' & news' & r1 & Eg' & Ln & W1 & P1 & _ & M1 & _).
+  { rewrite N2Nat.id. exact Hroom. }
+  rewrite Eg in Eg'. injection Eg' as <- Enw. cbn [app] in *. subst news'.
+  rewrite N2Nat.id in Ln.
+  set (zs := repeatN 0 new_len : list byte).
+  assert (Hzs : lenN zs = new_len) by (unfold zs; apply lenN_repeatN).
+  destruct (SA.mwrite_within s1 r1 rids mfids dids id news1 0 zs W1 P1) as (s2 & Ew & W2 & Hmf2 & Hd2 & _);
+    [rewrite Hzs, Ln; lia|].
+  assert (Hn2 : nthN (dirs s2) id = Some e).
+  { rewrite Hd2, (SA.mframe_entry _ _ _ _ _ _ id M1 Hidr). exact Hnth. }
+  assert (P2 : path (minifat s2) (hd END_OF_CHAIN news1) news1) by (rewrite Hmf2; exact P1).
+  destruct (SA.finish_small s2 id e r1 rids mfids dids news1 new_len W2 Hn2 Ht P2)
+    as (s'' & Eu & _); [lia|lia|lia|].
+  assert (Hrun' : resize id new_len s = (s'', Ok tt)).
+  { unfold resize. sred.
+    rewrite (stream_entry_ok s id e Hnth Ht). sred. rewrite Hst, Hl0.
+    assert (E0 : (MAX_REGULAR_SECTOR * slen s <? new_len) = false).
+    { pose proof (ChainProofs.slen_pos s). apply N.ltb_ge. rewrite MAXREG_val. rewrite CUTOFF_val in Hcut. nia. }
+    rewrite E0. sred.
+    rewrite (mask_check_false s new_len) by (apply small_fits_mask; lia). sred.
+    rewrite N.eqb_refl. cbn [N.eqb negb].
+    assert (E5 : (new_len <? MINI_STREAM_CUTOFF) = true) by lia. rewrite E5.
+    rewrite (SA.mchain_new_eoc s).
+    rewrite (SA.mchain_set_len_grow s (mkMChain [] 0) new_len Hcut Hpos) by (cbn [mc_ids lenN]; lia).
+    cbn [mc_ids lenN]. rewrite N.sub_0_r. fold num. rewrite Eg.
+    unfold zero_fill_mchain.
+    assert (E6 : (0 <? new_len) = true) by lia. rewrite E6. sred.
+    rewrite (mchain_seek_ok s1 news1 0 0) by lia.
+    rewrite N.sub_0_r. fold zs. rewrite Ew.
+    rewrite SA.mchain_start_hd. exact Eu. }
+  assert (s'' = s') by congruence. subst s''.
+  assert (Hmfeq : minifat s' = minifat s1).
+  { rewrite (update_entry_minifat s2 s' id e _ _ r1 rids mfids dids W2 Hn2 Eu). exact Hmf2. }
+  pose proof Hsm' as (Hnth' & Ht' & Hcut2 & Hpos2 & Hch2 & _).
+  cbn [set_start_len d_start] in Hch2.
+  assert (Hnews_ne : news1 <> []) by (intros ->; cbn [lenN] in Ln; lia).
+  assert (Enews : news = news1).
+  { assert (Hc1 : chain_ids_of (minifat s') (hd END_OF_CHAIN news1) = Ok news1).
+    { rewrite Hmfeq. apply SA.chain_of_path. exact P1. }
+    assert (Hne : news <> []) by (intros ->; cbn [lenN] in Hlen; fold num in Hlen; lia).
+    (* both chains start at the head recorded in the entry *)
+    pose proof (WalkProofs.chain_ids_path _ _ _ Hch2) as Hp2.
+    pose proof (path_hd_start _ _ _ Hp2) as Hh2.
+    assert (Hstart : hd END_OF_CHAIN news = hd END_OF_CHAIN news1).
+    { pose proof Eu as Eu0.
+      destruct (StoreProofs.update_entry_exec s2 id e (hd END_OF_CHAIN news1) new_len dids) as (sx & Eux & Hdx & _).
+      { exact Hn2. } { exact (SA.mw_names _ _ _ _ _ W2 id e Hn2). } { exact (SA.mw_dch _ _ _ _ _ W2). }
+      { exact (SA.mw_dgood _ _ _ _ _ W2). }
+      { pose proof (SA.mw_dcap _ _ _ _ _ W2) as Hcap. pose proof (nthN_Some_lt _ _ _ _ Hn2).
+        rewrite StoreProofs.DEL_val in *. lia. }
+      assert (sx = s') by congruence. subst sx.
+      rewrite Hdx in Hnth'. rewrite nthN_updN_same in Hnth' by (eapply nthN_Some_lt; exact Hn2).
+      injection Hnth' as Heq. symmetry. exact Heq. }
+    rewrite Hstart in Hch2. congruence. }
+  subst news1.
+  pose proof M as (Msh & Mlen & Moth & _ & _ & Mml & Mfr).
+  destruct (small_grow_dinv s s' r r' rids mfids dids id e (set_start_len e (hd END_OF_CHAIN news) new_len) [] news
+              HCD HD HFA HCD0 W W' Msh Mlen) as [HD' HFA']; try assumption.
+  - right. split; [exact Hl0|reflexivity].
+  - exact (SA.small_at_entry _ _ _ _ _ _ Hsm').
+  - cbn [app]. rewrite ceil64. cbn [set_start_len d_len]. exact Hlen.
+  - intros y Hy. rewrite Hmfeq in Hy. destruct (T1 y Hy) as [H1|H1]; [left; exact H1|right; exact H1].
+  - exists s'. auto.
+Qed.
+
+
+(* ---- MiniChain::write with extension: nothing but the new members is appended ---- *)
+Lemma mchain_write_go_tight : forall fuel s mids off bs r rids mfids dids,
+  SA.MWf_at s r rids mfids dids ->
+  path (minifat s) (hd END_OF_CHAIN mids) mids ->
+  off <= 64 * lenN mids ->
+  SA.mroom s rids mfids ((off + lenN bs + 63) / 64 - lenN mids) ->
+  (1 <= fuel)%nat ->
+  (0 < lenN bs -> off + lenN bs <= 64 * (off / 64 + N.of_nat fuel - 1)) ->
+  exists s' news,
+    mchain_write_go fuel (mkMChain mids off) bs s
+      = (s', Ok (mkMChain (mids ++ news) (off + lenN bs))) /\
+    forall y, y < lenN (minifat s') -> y < lenN (minifat s) \/ In y news.
+Proof.
+  induction fuel as [|f IH]; intros s mids off bs r rids mfids dids W Hp Hoff Hroom Hf1 Hfuel; [lia|].
+  assert (Hpos : 0 < 64) by lia.
+  cbn [mchain_write_go].
+  destruct bs as [|b0 bt] eqn:Ebs.
+  - exists s, []. rewrite app_nil_r. cbn [lenN]. rewrite N.add_0_r.
+    split; [reflexivity|]. intros y Hy. left. exact Hy.
+  - assert (Hbs : 0 < lenN (b0 :: bt)) by (cbn [lenN]; lia).
+    rewrite <- Ebs in *. clear Ebs b0 bt. specialize (Hfuel Hbs).
+    destruct (SA.pre_extend s mids off (lenN bs) r rids mfids dids W Hp Hoff Hbs Hroom)
+      as (s1 & news1 & r1 & Epre & W1 & P1 & Hoff1 & Hroom1 & Ln1 & F1 & M1 & B1).
+    assert (T1 : forall y, y < lenN (minifat s1) -> y < lenN (minifat s) \/ In y news1).
+    { destruct (off =? 64 * lenN mids) eqn:E.
+      - apply N.eqb_eq in E.
+        assert (Hr1 : SA.mroom s rids mfids 1).
+        { eapply SA.mroom_le; [|exact Hroom]. lia. }
+        destruct (extend_tight s mids r rids mfids dids W Hp Hr1) as (sx & x & Ex & Tx).
+        rewrite (bind_exec _ _ _ _ _ Ex) in Epre. unfold ret in Epre.
+        injection Epre as <- En. apply app_inv_head in En. subst news1.
+        intros y Hy. destruct (Tx y Hy) as [H|H]; [left; exact H|right; left; symmetry; exact H].
+      - unfold ret in Epre. injection Epre as <- _. intros y Hy. left. exact Hy. }
+    set (mids1 := mids ++ news1) in *.
+    cbn [mc_ids mc_off]. unfold mchain_len. cbn [mc_ids]. change MINI_SECTOR_LEN with 64.
+    erewrite bind_exec; [|exact Epre].
+    cbn [mc_ids mc_off].
+    destruct (ChainProofs.divmod_split 64 off Hpos) as [Eoff Hr].
+    assert (Hq : off / 64 < lenN mids1) by (apply ChainProofs.div_lt_len; lia).
+    destruct (nthN mids1 (off / 64)) as [ms|] eqn:Hn;
+      [| apply nthN_None_ge in Hn; lia].
+    pose proof (nthN_In _ _ _ _ Hn) as Hin.
+    pose proof (SA.good_mchain_of_path _ _ _ _ _ _ _ W1 P1) as Hgm1.
+    pose proof Hgm1 as (Hroot1 & Hgood1 & Hnd1 & HF1).
+    pose proof HF1 as HF1'. rewrite Forall_forall in HF1'.
+    pose proof (HF1' _ Hin) as Hrange. cbv beta in Hrange.
+    cbv zeta.
+    remember (N.min (lenN bs) (64 - off mod 64)) as k eqn:Ek.
+    assert (Hlk : lenN (takeN k bs) = k) by (rewrite lenN_takeN; lia).
+    destruct (mini_write_step s1 rids ms (off mod 64) (takeN k bs) Hroot1 Hgood1 Hrange Hr)
+      as (sid & s2 & Hloc & Hw & Hmeta2 & Himg2 & Hlen2 & Hfr2 & Hgood2 & Hst2); [lia|].
+    erewrite bind_exec; [|exact Hloc]. cbv beta iota.
+    erewrite bind_exec; [|exact Hw].
+    pose proof (SA.MWf_same_meta s1 s2 r1 rids mfids dids W1 Hmeta2 Himg2 Hlen2) as W2.
+    destruct (same_meta_fields s1 s2 Hmeta2)
+      as (A1 & A2 & A3 & A4 & A5 & A6 & A7 & A8 & A9 & A10 & A11 & A12).
+    assert (P2 : path (minifat s2) (hd END_OF_CHAIN mids1) mids1) by (rewrite A9; exact P1).
+    destruct (IH s2 mids1 (off + k) (dropN k bs) r1 rids mfids dids W2 P2)
+      as (s' & news2 & Ego & T').
+    { nia. }
+    { apply (SA.mroom_same s1 s2); [rewrite A9; reflexivity | exact A11 | exact A12 |].
+      rewrite lenN_dropN. replace (off + k + (lenN bs - k)) with (off + lenN bs) by lia.
+      exact Hroom1. }
+    { assert (off + lenN bs > 64 * (off / 64)) by lia. nia. }
+    { rewrite lenN_dropN. intro Hrem.
+      assert (Hk : k = 64 - off mod 64) by lia.
+      rewrite Hk, ChainProofs.div_next by exact Hpos.
+      replace (off + (64 - off mod 64) + (lenN bs - (64 - off mod 64)))
+        with (off + lenN bs) by lia.
+      replace (off / 64 + 1 + N.of_nat f - 1)
+        with (off / 64 + N.of_nat (S f) - 1) by lia.
+      exact Hfuel. }
+    rewrite lenN_dropN in Ego.
+    replace (off + k + (lenN bs - k)) with (off + lenN bs) in Ego by lia.
+    unfold mids1 in Ego. rewrite <- app_assoc in Ego.
+    exists s', (news1 ++ news2). split; [exact Ego|].
+    intros y Hy. destruct (T' y Hy) as [H|H]; [|right; apply in_or_app; right; exact H].
+    rewrite A9 in H. destruct (T1 y H) as [H1|H1]; [left; exact H1|right; apply in_or_app; left; exact H1].
+Qed.
+
+Lemma mchain_write_all_tight : forall s mids off bs r rids mfids dids,
+  SA.MWf_at s r rids mfids dids ->
+  path (minifat s) (hd END_OF_CHAIN mids) mids ->
+  off <= 64 * lenN mids ->
+  SA.mroom s rids mfids ((off + lenN bs + 63) / 64 - lenN mids) ->
+  exists s' news,
+    mchain_write_all (mkMChain mids off) bs s
+      = (s', Ok (mkMChain (mids ++ news) (off + lenN bs))) /\
+    forall y, y < lenN (minifat s') -> y < lenN (minifat s) \/ In y news.
+Proof.
+  intros s mids off bs r rids mfids dids W Hp Hoff Hroom.
+  unfold mchain_write_all. change MINI_SECTOR_LEN with 64.
+  apply (mchain_write_go_tight _ s mids off bs r rids mfids dids W Hp Hoff Hroom).
+  - apply le_n_S, Nat.le_0_l.
+  - intro Hn. apply ChainProofs.fuel_enough; [lia | exact Hn].
+Qed.
+
+(* ---- a write that makes a small stream take mini sectors ---- *)
+Theorem write_small_alloc_dinv : forall s id V k off buf,
+  CohData' s -> DInv s -> FreeAll s ->
+  small_content s id V -> mini_sectors s id k ->
+  off <= lenN V -> lenN (spliceN V off buf) < MINI_STREAM_CUTOFF ->
+  SA.mini_room s (SA.msectors (off + lenN buf) - k) ->
+  RootFits s (SA.msectors (off + lenN buf) - k) ->
+  exists s', write_data id off buf s = (s', Ok tt) /\ CohData' s' /\ DInv s' /\ FreeAll s'.
+Proof.
+  intros s id V k off buf HCD HD HFA Hsc Hk Hoff Hcut Hmr Hrf.
+  destruct (write_small_alloc_cohdata' s id V k off buf HCD Hsc Hk Hoff Hcut Hmr Hrf) as (s0 & R0 & HCD0 & _).
+  destruct Hmr as (r0 & rids0 & mfids0 & dids0 & SW0 & Hroom).
+  pose proof HCD as [HC (r & rids & mfids & dids & SW & Hmdj) HF Hax].
+  destruct (swf_witness_fun _ _ _ _ _ _ _ _ _ _ _ SW SW0) as (-> & -> & -> & ->). clear SW0.
+  pose proof (SA.sw_m _ _ _ _ _ _ SW) as W.
+  destruct (SA.small_content_at _ _ _ _ _ _ _ W Hsc) as (e & mids & Hsm).
+  pose proof (mini_sectors_small_at _ _ _ _ _ _ _ Hsm Hk) as Ek. subst k.
+  rewrite lenN_spliceN in Hcut. unfold SA.msectors in *.
+  destruct (SA.write_data_small_alloc_full s id e r rids mfids dids mids V off buf W Hsm Hoff)
+    as (s' & news & r' & Hrun & Hsm' & Hlen & W' & Hfresh & M); [lia | exact Hroom |].
+  assert (s0 = s') by congruence. subst s0.
+  pose proof (small_at_lenV _ _ _ _ _ _ Hsm) as HlenV. rewrite HlenV in *.
+  destruct (small_at_start _ _ _ _ _ _ Hsm) as (Hne & Hst & Hk0).
+  pose proof Hsm as (Hnth & Ht & Hcut0 & Hpos & Hch & Hgm & Hle0 & HV).
+  pose proof (SA.small_not_root _ _ _ _ _ _ _ W Hnth Ht) as Hidr.
+  assert (Hmne : mids <> []) by (intros ->; cbn [lenN] in Hk0; lia).
+  assert (Hpath0 : path (minifat s) (d_start e) mids) by (apply WalkProofs.chain_ids_path; exact Hch).
+  pose proof (path_hd_start _ _ _ Hpath0) as Hhd.
+  assert (Hpath : path (minifat s) (hd END_OF_CHAIN mids) mids) by (rewrite <- Hhd; exact Hpath0).
+  set (ln := N.max (d_len e) (off + lenN buf)) in *.
+  destruct (mchain_write_all_tight s mids off buf r rids mfids dids W Hpath) as (s1 & news1 & Ew & T1);
+    [lia|exact Hroom|].
+  destruct (SA.mchain_write_all_alloc s mids off buf r rids mfids dids W Hpath)
+    as (s1' & news' & r1 & Ew' & W1 & P1 & Ln & Hfit & _ & _ & M1); [lia|exact Hroom|].
+  rewrite Ew in Ew'. injection Ew' as <- Enw. apply app_inv_head in Enw. subst news'.
+  set (mall := mids ++ news1) in *.
+  assert (Hhd' : hd END_OF_CHAIN mall = d_start e)
+    by (unfold mall; rewrite SA.hd_app_ne by exact Hmne; symmetry; exact Hhd).
+  assert (Hn1 : nthN (dirs s1) id = Some e).
+  { rewrite (SA.mframe_entry _ _ _ _ _ _ id M1 Hidr). exact Hnth. }
+  assert (HLall : lenN mids <= lenN mall) by (unfold mall; rewrite lenN_app; lia).
+  destruct (SA.finish_small s1 id e r1 rids mfids dids mall ln W1 Hn1 Ht P1)
+    as (s'' & Eu & _); [unfold ln; lia | unfold ln; lia | unfold ln; lia |].
+  rewrite Hhd' in Eu.
+  assert (Hrun' : write_data id off buf s = (s'', Ok tt)).
+  { unfold write_data. sred.
+    rewrite (stream_entry_ok s id e Hnth Ht). sred.
+    assert (E1 : (d_len e <? off) = false) by lia. rewrite E1.
+    rewrite (both_check_false_small s (N.max (d_len e) (off + lenN buf))) by lia.
+    assert (E2 : (d_start e =? END_OF_CHAIN) = false) by lia. rewrite E2.
+    assert (E3 : (d_len e <? MINI_STREAM_CUTOFF) = true) by lia. rewrite E3.
+    fold ln.
+    assert (E4 : (ln <? MINI_STREAM_CUTOFF) = true) by (unfold ln; lia). rewrite E4.
+    rewrite (mchain_new_ok s _ mids Hch).
+    rewrite (mchain_seek_ok s mids 0 off) by lia.
+    rewrite Ew.
+    assert (E5 : negb (mchain_start (mkMChain mall (off + lenN buf)) =? d_start e) = false).
+    { rewrite SA.mchain_start_hd, Hhd', N.eqb_refl. reflexivity. }
+    rewrite E5. exact Eu. }
+  assert (s'' = s') by congruence. subst s''.
+  assert (Hmfeq : minifat s' = minifat s1)
+    by exact (update_entry_minifat s1 s' id e _ _ r1 rids mfids dids W1 Hn1 Eu).
+  pose proof Hsm' as (Hnth' & Ht' & Hcut2 & Hpos2 & Hch2 & _).
+  cbn [set_start_len d_start] in Hch2.
+  assert (Enews : news = news1).
+  { assert (Hc1 : chain_ids_of (minifat s') (d_start e) = Ok mall).
+    { rewrite Hmfeq, <- Hhd'. apply SA.chain_of_path. exact P1. }
+    rewrite Hch2 in Hc1. injection Hc1 as Hc1. unfold mall in Hc1. apply app_inv_head in Hc1. exact Hc1. }
+  subst news1.
+  destruct (di_small s HD id e Hnth Ht Hpos Hcut0) as (l & Hl & Hll). assert (l = mids) by congruence. subst l.
+  rewrite ceil64 in Hll.
+  pose proof M as (Msh & Mlen & Moth & _ & _ & Mml & Mfr).
+  destruct (small_grow_dinv s s' r r' rids mfids dids id e
+              (set_start_len e (d_start e) (N.max (d_len e) (off + lenN buf))) mids news
+              HCD HD HFA HCD0 W W' Msh Mlen) as [HD' HFA']; try assumption.
+  - left. split; [exact (SA.small_at_entry _ _ _ _ _ _ Hsm)|exact Hch].
+  - exact (SA.small_at_entry _ _ _ _ _ _ Hsm').
+  - rewrite ceil64. cbn [set_start_len d_len]. rewrite lenN_app, Hlen. fold ln.
+    destruct (N.max_spec (d_len e) (off + lenN buf)) as [[Hc1 Hc2]|[Hc1 Hc2]]; unfold ln; rewrite Hc2; lia.
+  - intros y Hy. rewrite Hmfeq in Hy. destruct (T1 y Hy) as [H1|H1]; [left; exact H1|].
+    right. apply in_or_app. right. exact H1.
+  - exists s'. auto.
+Qed.
+
+(* ---- the first write of an empty stream, small ---- *)
+Theorem write_empty_small_dinv : forall s id buf,
+  CohData' s -> DInv s -> FreeAll s -> SA.empty_stream s id ->
+  0 < lenN buf -> lenN buf < MINI_STREAM_CUTOFF ->
+  SA.mini_room s (SA.msectors (lenN buf)) -> RootFits s (SA.msectors (lenN buf)) ->
+  exists s', write_data id 0 buf s = (s', Ok tt) /\ CohData' s' /\ DInv s' /\ FreeAll s'.
+Proof.
+  intros s id buf HCD HD HFA Hemp Hpos Hcut Hmr Hrf.
+  destruct (write_empty_small_cohdata' s id buf HCD Hemp Hpos Hcut Hmr Hrf) as (s0 & R0 & HCD0 & _).
+  destruct Hemp as (e & He).
+  destruct Hmr as (r0 & rids0 & mfids0 & dids0 & SW0 & Hroom).
+  pose proof HCD as [HC (r & rids & mfids & dids & SW & Hmdj) HF Hax].
+  destruct (swf_witness_fun _ _ _ _ _ _ _ _ _ _ _ SW SW0) as (-> & -> & -> & ->). clear SW0.
+  pose proof (SA.sw_m _ _ _ _ _ _ SW) as W. unfold SA.msectors in *.
+  destruct (SA.write_data_empty_small_full s id e r rids mfids dids buf W He Hpos Hcut Hroom)
+    as (s' & news & r' & Hrun & Hsm' & Hlen & W' & Hfresh & M).
+  assert (s0 = s') by congruence. subst s0.
+  pose proof He as (Hnth & Ht & Hst & Hl0).
+  pose proof (SA.small_not_root _ _ _ _ _ _ _ W Hnth Ht) as Hidr.
+  assert (Hp0 : path (minifat s) (hd END_OF_CHAIN []) []) by constructor.
+  destruct (mchain_write_all_tight s [] 0 buf r rids mfids dids W Hp0) as (s1 & news1 & Ew & T1).
+  { cbn [lenN]. lia. }
+  { cbn [lenN]. rewrite N.add_0_l, N.sub_0_r. exact Hroom. }
+  destruct (SA.mchain_write_all_alloc s [] 0 buf r rids mfids dids W Hp0)
+    as (s1' & news' & r1 & Ew' & W1 & P1 & Ln & Hfit & _ & _ & M1).
+  { cbn [lenN]. lia. }
+  { cbn [lenN]. rewrite N.add_0_l, N.sub_0_r. exact Hroom. }
+  rewrite Ew in Ew'. injection Ew' as <- Enw. cbn [app] in *. subst news'.
+  cbn [lenN] in *. rewrite N.add_0_l in *. rewrite N.sub_0_r in Ln.
+  assert (Hn1 : nthN (dirs s1) id = Some e).
+  { rewrite (SA.mframe_entry _ _ _ _ _ _ id M1 Hidr). exact Hnth. }
+  destruct (SA.finish_small s1 id e r1 rids mfids dids news1 (lenN buf) W1 Hn1 Ht P1)
+    as (s'' & Eu & _); [lia | lia | lia |].
+  assert (Hrun' : write_data id 0 buf s = (s'', Ok tt)).
+  { unfold write_data. sred.
+    rewrite (stream_entry_ok s id e Hnth Ht). sred. rewrite Hst, Hl0.
+    change (0 <? 0) with false. sred.
+    rewrite (both_check_false_small s (N.max 0 (0 + lenN buf))) by lia.
+    cbn [N.ltb N.compare N.eqb negb]. rewrite N.eqb_refl.
+    rewrite N.add_0_l.
+    replace (N.max 0 (lenN buf)) with (lenN buf) by lia.
+    assert (E4 : (lenN buf <? MINI_STREAM_CUTOFF) = true) by lia. rewrite E4.
+    rewrite (SA.mchain_new_eoc s). rewrite Ew.
+    rewrite SA.mchain_start_hd. exact Eu. }
+  assert (s'' = s') by congruence. subst s''.
+  assert (Hmfeq : minifat s' = minifat s1)
+    by exact (update_entry_minifat s1 s' id e _ _ r1 rids mfids dids W1 Hn1 Eu).
+  pose proof Hsm' as (Hnth' & Ht' & Hcut2 & Hpos2 & Hch2 & _).
+  cbn [set_start_len d_start] in Hch2.
+  assert (Enews : news = news1).
+  { assert (Hc1 : chain_ids_of (minifat s') (hd END_OF_CHAIN news1) = Ok news1).
+    { rewrite Hmfeq. apply SA.chain_of_path. exact P1. }
+    assert (Hstart : hd END_OF_CHAIN news = hd END_OF_CHAIN news1).
+    { destruct (StoreProofs.update_entry_exec s1 id e (hd END_OF_CHAIN news1) (lenN buf) dids) as (sx & Eux & Hdx & _).
+      { exact Hn1. } { exact (SA.mw_names _ _ _ _ _ W1 id e Hn1). } { exact (SA.mw_dch _ _ _ _ _ W1). }
+      { exact (SA.mw_dgood _ _ _ _ _ W1). }
+      { pose proof (SA.mw_dcap _ _ _ _ _ W1) as Hcap. pose proof (nthN_Some_lt _ _ _ _ Hn1).
+        rewrite StoreProofs.DEL_val in *. lia. }
+      assert (sx = s') by congruence. subst sx.
+      rewrite Hdx in Hnth'. rewrite nthN_updN_same in Hnth' by (eapply nthN_Some_lt; exact Hn1).
+      injection Hnth' as Heq. symmetry. exact Heq. }
+    rewrite Hstart in Hch2. congruence. }
+  subst news1.
+  pose proof M as (Msh & Mlen & Moth & _ & _ & Mml & Mfr).
+  destruct (small_grow_dinv s s' r r' rids mfids dids id e
+              (set_start_len e (hd END_OF_CHAIN news) (lenN buf)) [] news
+              HCD HD HFA HCD0 W W' Msh Mlen) as [HD' HFA']; try assumption.
+  - right. split; [exact Hl0|reflexivity].
+  - exact (SA.small_at_entry _ _ _ _ _ _ Hsm').
+  - cbn [app]. rewrite ceil64. cbn [set_start_len d_len]. rewrite Ln. f_equal. lia.
+  - intros y Hy. rewrite Hmfeq in Hy. destruct (T1 y Hy) as [H1|H1]; [left; exact H1|right; exact H1].
+  - exists s'. auto.
+Qed.
+
+
+(* ================================================================== *)
+(* 12. histories: everything of [hist_ok2] except the migrations       *)
+(* ================================================================== *)
+Definition ResizeCaseE (s : cstate) (id n : N) : Prop :=
+  ResizeCaseC s id n \/
+  (exists V k, small_content s id V /\ mini_sectors s id k /\ 0 < n /\ n < MINI_STREAM_CUTOFF /\
+     k <= SA.msectors n /\ SA.mini_room s (SA.msectors n - k) /\ RootFits s (SA.msectors n - k)) \/
+  (SA.empty_stream s id /\ 0 < n /\ n < MINI_STREAM_CUTOFF /\
+     SA.mini_room s (SA.msectors n) /\ RootFits s (SA.msectors n)).
+
+Lemma ResizeCaseE_ResizeCase : forall s id n, ResizeCaseE s id n -> ResizeCase s id n.
+Proof.
+  intros s id n [H|[H|H]]; [exact (ResizeCaseC_ResizeCase s id n H)| |]; unfold ResizeCase.
+  - do 4 right. left. exact H.
+  - do 5 right. left. exact H.
+Qed.
+
+Lemma small_content_stream : forall s id V, small_content s id V ->
+  exists e, nthN (dirs s) id = Some e /\ d_type e = TStream.
+Proof. intros s id V (e & l & m & (He & Ht & _)). exists e. auto. Qed.
+
+Theorem resize_caseE_w2 : forall s id n,
+  W2 s -> ResizeCaseE s id n -> exists s', resize id n s = (s', Ok tt) /\ W2 s'.
+Proof.
+  intros s id n HW HR0. pose proof HR0 as HR.
+  destruct HR as [HR|HR]; [exact (resize_caseC_w2 s id n HW HR)|].
+  pose proof HW as (HT & HD & HFA & HTd). pose proof (proj1 HT) as HCD.
+  destruct (resize_case_cohtree s id n HT (ResizeCaseE_ResizeCase s id n HR0)) as (s0 & R0 & HT0 & _).
+  assert (Hfin : forall s' e, resize id n s = (s', Ok tt) -> nthN (dirs s) id = Some e -> d_type e = TStream ->
+            DInv s' -> FreeAll s' -> exists s', resize id n s = (s', Ok tt) /\ W2 s').
+  { intros s' e R He Ht HD' HFA'. assert (s0 = s') by congruence. subst s0.
+    exists s'. split; [exact R|]. apply (w2_after s s' id e HW He Ht HT0 HD' HFA').
+    pose proof (framesR_resize id n s) as D. rewrite R in D. exact D. }
+  destruct HR as [(V & k & Hsc & Hk & H1 & H2 & H3 & H4 & H5)|(He & H1 & H2 & H3 & H4)].
+  - destruct (small_content_stream s id V Hsc) as (e & Hn & Ht).
+    destruct (resize_small_alloc_dinv s id V k n HCD HD HFA Hsc Hk H1 H2 H3 H4 H5) as (s' & R & _ & HD' & HFA').
+    exact (Hfin s' e R Hn Ht HD' HFA').
+  - destruct (empty_stream_stream s id He) as (e & Hn & Ht).
+    destruct (resize_empty_small_dinv s id n HCD HD HFA He H1 H2 H3 H4) as (s' & R & _ & HD' & HFA').
+    exact (Hfin s' e R Hn Ht HD' HFA').
+Qed.
+
+Definition WriteCaseE (s : cstate) (id off : N) (buf : list byte) : Prop :=
+  WriteCaseB s id off buf \/
+  (exists V k, small_content s id V /\ mini_sectors s id k /\ off <= lenN V /\
+     lenN (spliceN V off buf) < MINI_STREAM_CUTOFF /\
+     SA.mini_room s (SA.msectors (off + lenN buf) - k) /\ RootFits s (SA.msectors (off + lenN buf) - k)) \/
+  (SA.empty_stream s id /\ off = 0 /\ 0 < lenN buf /\ lenN buf < MINI_STREAM_CUTOFF /\
+     SA.mini_room s (SA.msectors (lenN buf)) /\ RootFits s (SA.msectors (lenN buf))).
+
+Lemma WriteCaseE_WriteCase : forall s id off buf, WriteCaseE s id off buf -> WriteCase s id off buf.
+Proof.
+  intros s id off buf [H|[H|H]]; [exact (WriteCaseB_WriteCase s id off buf H)| |]; unfold WriteCase.
+  - right; left. exact H.
+  - right; right; left. exact H.
+Qed.
+
+Theorem write_caseE_w2 : forall s id off buf,
+  W2 s -> WriteCaseE s id off buf -> exists s', write_data id off buf s = (s', Ok tt) /\ W2 s'.
+Proof.
+  intros s id off buf HW HC0. pose proof HC0 as HC.
+  destruct HC as [HC|HC]; [exact (write_caseB_w2 s id off buf HW HC)|].
+  pose proof HW as (HT & HD & HFA & HTd). pose proof (proj1 HT) as HCD.
+  destruct (write_case_cohtree s id off buf HT (WriteCaseE_WriteCase s id off buf HC0)) as (s0 & R0 & HT0 & _).
+  assert (Hfin : forall s' e, write_data id off buf s = (s', Ok tt) -> nthN (dirs s) id = Some e ->
+            d_type e = TStream -> DInv s' -> FreeAll s' ->
+            exists s', write_data id off buf s = (s', Ok tt) /\ W2 s').
+  { intros s' e R He Ht HD' HFA'. assert (s0 = s') by congruence. subst s0.
+    exists s'. split; [exact R|]. apply (w2_after s s' id e HW He Ht HT0 HD' HFA').
+    pose proof (framesR_write_data id off buf s) as D. rewrite R in D. exact D. }
+  destruct HC as [(V & k & Hsc & Hk & H1 & H2 & H3 & H4)|(He & -> & H1 & H2 & H3 & H4)].
+  - destruct (small_content_stream s id V Hsc) as (e & Hn & Ht).
+    destruct (write_small_alloc_dinv s id V k off buf HCD HD HFA Hsc Hk H1 H2 H3 H4) as (s' & R & _ & HD' & HFA').
+    exact (Hfin s' e R Hn Ht HD' HFA').
+  - destruct (empty_stream_stream s id He) as (e & Hn & Ht).
+    destruct (write_empty_small_dinv s id buf HCD HD HFA He H1 H2 H3 H4) as (s' & R & _ & HD' & HFA').
+    exact (Hfin s' e R Hn Ht HD' HFA').
+Qed.
+
+Definition CWdE (id off : N) (bs : list byte) (s : cstate) : Prop := WriteCaseE s id off bs.
+Definition CRdE (id n : N) (s : cstate) : Prop := ResizeCaseE s id n.
+
+Definition cov_flushE (h : handle) (s : cstate) : Prop :=
+  h_dirty h = true -> CWdE (h_id h) (h_off h) (buf_filled (h_buf h)) s.
+
+Definition covered_opE (o : op) (h : handle) (s : cstate) : Prop :=
+  match o with
+  | OHRead _ _ | OHFill _ | OHWrite _ _ | OHSeek _ _ _ | OHFlush _ | OHDrop _ => cov_flushE h s
+  | OHSetLen _ n =>
+      cov_flushE h s /\ (n <> h_total h -> CRdE (h_id h) n (fst (flush_changes' h s)))
+  | _ => True
+  end.
+
+Lemma w2_wrE : forall id off bs s, W2 s -> CWdE id off bs s ->
+  W2 (fst (write_data id off bs s)) /\ Rtriv id s (fst (write_data id off bs s)).
+Proof.
+  intros id off bs s HG HC. destruct (write_caseE_w2 s id off bs HG HC) as (s' & E & H).
+  rewrite E. split; [exact H|exact I].
+Qed.
+Lemma w2_rsE : forall id n s, W2 s -> CRdE id n s ->
+  W2 (fst (resize id n s)) /\ Rtriv id s (fst (resize id n s)).
+Proof.
+  intros id n s HG HC. destruct (resize_caseE_w2 s id n HG HC) as (s' & E & H).
+  rewrite E. split; [exact H|exact I].
+Qed.
+
+Theorem hop_run_w2E : forall o h s, W2 s -> covered_opE o h s -> W2 (fst (hop_run o h s)).
+Proof.
+  intros o h s HA HC.
+  assert (Rr : forall id s0, Rtriv id s0 s0) by (intros; exact I).
+  assert (Rt : forall id a b c, Rtriv id a b -> Rtriv id b c -> Rtriv id a c) by (intros; exact I).
+  pose proof (h_read_C cstate read_data write_data stream_len_of W2 Rtriv CWdE Rr Rt w2_rd w2_sl w2_wrE) as Xread.
+  pose proof (h_fill_buf_C cstate read_data write_data stream_len_of W2 Rtriv CWdE Rr Rt w2_rd w2_sl w2_wrE) as Xfill.
+  pose proof (h_write_C cstate write_data stream_len_of W2 Rtriv CWdE Rr Rt w2_sl w2_wrE) as Xwrite.
+  pose proof (h_seek_C cstate write_data stream_len_of W2 Rtriv CWdE Rr Rt w2_sl w2_wrE) as Xseek.
+  pose proof (h_set_len_C cstate write_data resize stream_len_of W2 Rtriv CWdE CRdE Rr Rt w2_sl w2_wrE w2_rsE) as Xsetlen.
+  pose proof (h_flush_C cstate write_data stream_len_of W2 Rtriv CWdE Rr Rt w2_sl w2_wrE) as Xflush.
+  pose proof (flush_changes_C cstate write_data stream_len_of W2 Rtriv CWdE Rr Rt w2_sl w2_wrE) as Xfc.
+  destruct o; cbn [hop_run covered_opE] in *; cbv zeta; cbn [fst snd]; try exact HA.
+  - exact (proj1 (proj1 (Xread h n s HA HC))).
+  - exact (proj1 (proj1 (Xfill h s HA HC))).
+  - exact (proj1 (proj1 (Xwrite h bs s HA HC))).
+  - exact (proj1 (proj1 (Xseek h w z s HA HC))).
+  - destruct HC as [HC1 HC2]. exact (proj1 (proj1 (Xsetlen h n s HA HC1 HC2))).
+  - exact (proj1 (proj1 (Xflush h s HA HC))).
+  - exact (proj1 (proj1 (Xfc h s HA HC))).
+Qed.
+
+(* one step: the conditions of DataPersist2.step_ok2, with [covered_opE] (no
+   migration) for the handle operations; every api_remove_stream of step_ok2 *)
+Definition step_okE (f : fstate) (o : op) : Prop :=
+  match handle_slot o with
+  | Some i => forall h, nthN (hs f) i = Some (Some h) -> covered_opE o h (cs f)
+  | None =>
+    match o with
+    | ORemoveStream p =>
+        exists id e, MutRefine.id_of_path (cs f) p = Some id /\ nthN (dirs (cs f)) id = Some e /\
+                     (0 < d_len e \/ SA.empty_at (cs f) id e) /\
+                     snd (api_remove_stream p (cs f)) = Ok tt
+    | OReopen _ => all_clean f
+    | _ => query_op o
+    end
+  end.
+
+Theorem step_w2E : forall f now o, W2 (cs f) -> step_okE f o -> W2 (cs (fst (step f now o))).
+Proof.
+  intros f now o HG Hok. unfold step_okE in Hok.
+  destruct (handle_slot o) as [i|] eqn:Eslot.
+  - destruct (nthN (hs f) i) as [[h|]|] eqn:Eh.
+    + destruct (step f now o) as [f' r] eqn:Es. cbn [fst].
+      destruct (step_handle_shape f now o i h f' r Eslot Eh Es) as (E1 & _).
+      rewrite E1. exact (hop_run_w2E o h (cs f) HG (Hok h eq_refl)).
+    + rewrite (step_no_handle f now o i Eslot); [exact HG|]. intros h E. rewrite Eh in E. discriminate E.
+    + rewrite (step_no_handle f now o i Eslot); [exact HG|]. intros h E. rewrite Eh in E. discriminate E.
+  - assert (Hdef : step_okC f o -> W2 (cs (fst (step f now o)))) by (apply step_w2C; exact HG).
+    unfold step_okC in Hdef. rewrite Eslot in Hdef.
+    destruct o; try exact (Hdef Hok).
+    destruct Hok as (id & e & Hid & He & Hcase & Hres).
+    cbn [step]. unfold with_cs. destruct (api_remove_stream p (cs f)) as [s' r] eqn:E.
+    cbn [snd] in Hres. subst r. cbn [fst cs].
+    destruct Hcase as [Hpos|Hemp]; [|exact (remove_empty_stream_w2 p (cs f) s' id e HG E Hid Hemp)].
+    destruct (N.lt_ge_cases (d_len e) MINI_STREAM_CUTOFF) as [Hsm|Hbg].
+    + exact (remove_small_stream_w2 p (cs f) s' id e HG E Hid He Hpos Hsm).
+    + exact (remove_big_stream_w2 p (cs f) s' id e HG E Hid He Hbg).
+Qed.
+
+Fixpoint hist_okE (f : fstate) (l : list (N * op)) : Prop :=
+  match l with
+  | [] => True
+  | (now, o) :: t => step_okE f o /\ hist_okE (fst (step f now o)) t
+  end.
+
+Theorem history_w2E : forall l f, W2 (cs f) -> hist_okE f l -> W2 (cs (fst (ReadonlyTotal.run_ops f l))).
+Proof.
+  induction l as [|[now o] t IH]; intros f HG Hrun; [exact HG|].
+  cbn [hist_okE] in Hrun. destruct Hrun as [Hok Hrun].
+  rewrite PersistProofs.run_ops_cons. apply IH; [|exact Hrun]. apply step_w2E; assumption.
+Qed.
+
+Lemma hist_okE_app : forall l1 l2 f, hist_okE f (l1 ++ l2) -> hist_okE f l1.
+Proof.
+  induction l1 as [|[now o] t IH]; intros l2 f H; [exact I|].
+  cbn [app hist_okE] in *. destruct H as [H1 H2]. split; [exact H1|]. eapply IH. exact H2.
+Qed.
+
+(* C03 along the histories of DataPersist2.persist_data_history2 that contain
+   no migration across the 4096-byte cutoff: after every prefix the checker
+   accepts the bytes (and [W2] holds: the bytes reopen to the cached state,
+   exact chains, unique owners, no leaked sector) *)
+Theorem wf_data_history5 : forall (l1 l2 : list (N * op)) f,
+  W2 (cs f) -> hist_okE f (l1 ++ l2) ->
+  wf_check (concat_img (img (cs (fst (ReadonlyTotal.run_ops f l1))))) = 0.
+Proof.
+  intros l1 l2 f HG Hrun. apply w2_image_wf.
+  apply history_w2E; [exact HG|]. eapply hist_okE_app. exact Hrun.
+Qed.
+
+(* non-vacuity: DataPersist2's Example4.hist2 itself -- growth at the end of
+   the file, release, removal of the SMALL stream "/a" (MiniFAT trimmed to
+   nothing, root length 0), reopening, growth into a released sector, a
+   buffered write and its flush *)
+Module Example10.
+  Import HandleFrame.Example DataPersist.Example Example1 Example4.
+
+  Example hist2_okE : hist_okE fA hist2.
+  Proof.
+    assert (A1 : nthN (hs fA) 1 = Some (Some (slot fA 1))) by (vm_compute; reflexivity).
+    assert (B1 : nthN (hs g1) 1 = Some (Some (slot g1 1))) by (vm_compute; reflexivity).
+    assert (F1 : nthN (hs g5) 1 = Some (Some (slot g5 1))) by (vm_compute; reflexivity).
+    assert (G1 : nthN (hs g6) 1 = Some (Some (slot g6 1))) by (vm_compute; reflexivity).
+    assert (H1 : nthN (hs g7) 1 = Some (Some (slot g7 1))) by (vm_compute; reflexivity).
+    unfold hist2. cbn [hist_okE].
+    change (fst (step fA 0 (OHSetLen 1 6000))) with g1.
+    change (fst (step g1 0 (OHSetLen 1 4200))) with g2.
+    change (fst (step g2 0 (ORemoveStream [47; 97]))) with g3.
+    change (fst (step g3 0 (OReopen true))) with g4.
+    change (fst (step g4 0 (OOpenStream 1 [47; 98]))) with g5.
+    change (fst (step g5 0 (OHSetLen 1 5000))) with g6.
+    change (fst (step g6 0 (OHWrite 1 [5; 5]))) with g7.
+    unfold step_okE. cbn [handle_slot query_op].
+    split.
+    { intros h E. the_handle E A1. cbn [covered_opE]. split; [clean_flush|]. intros _.
+      rewrite flush_clean by (vm_compute; reflexivity). cbn [fst].
+      assert (Hid : h_id (slot fA 1) = 2) by (vm_compute; reflexivity). rewrite Hid.
+      destruct (big_check (cs fA) Vb idsb fA_wf) as [HB Hsi]; [vm_compute; reflexivity|].
+      left; left. right; right; left. exists Vb, idsb, 2%nat.
+      split; [arith|]. split; [arith|]. split; [arith|]. split; [exact HB|]. split; [exact Hsi|].
+      split; [arith|]. split; [arith|]. split.
+      { intros j Hj. assert (j = 0 \/ j = 1) as [-> | ->] by lia; arith. }
+      split; [arith|unfold LenFits; arith]. }
+    split.
+    { intros h E. the_handle E B1. cbn [covered_opE]. split; [clean_flush|]. intros _.
+      rewrite flush_clean by (vm_compute; reflexivity). cbn [fst].
+      assert (Hid : h_id (slot g1 1) = 2) by (vm_compute; reflexivity). rewrite Hid.
+      assert (Hwf : AllStreamsWf (cs g1)) by wf_of (cs g1).
+      destruct (big_check (cs g1) V1 ids1 Hwf) as [HB Hsi]; [vm_compute; reflexivity|].
+      left; left. right; right; right; left. exists V1, ids1. split; [exact HB|]. split; [exact Hsi|].
+      split; [arith|]. split; arith. }
+    split.
+    { exists 1. eexists. split; [vm_compute; reflexivity|]. split; [vm_compute; reflexivity|].
+      split; [left|]; vm_compute; reflexivity. }
+    split; [apply all_clean_b_sound; vm_compute; reflexivity|].
+    split; [exact I|].
+    split.
+    { intros h E. the_handle E F1. cbn [covered_opE]. split; [clean_flush|]. intros _.
+      rewrite flush_clean by (vm_compute; reflexivity). cbn [fst].
+      assert (Hid : h_id (slot g5 1) = 2) by (vm_compute; reflexivity). rewrite Hid.
+      assert (Hwf : AllStreamsWf (cs g5)) by wf_of (cs g5).
+      destruct (big_check (cs g5) V2 ids2 Hwf) as [HB Hsi]; [vm_compute; reflexivity|].
+      left; left. right; left. exists V2, ids2, [13; 14], [15]. split; [exact HB|]. split; [exact Hsi|].
+      split; [arith|]. split; [arith|]. split; [arith|]. split; [arith|unfold LenFits; arith]. }
+    split.
+    { intros h E. the_handle E G1. cbn [covered_opE]. clean_flush. }
+    split; [|exact I].
+    { intros h E. the_handle E H1. cbn [covered_opE]. intros _.
+      assert (Hid : h_id (slot g7 1) = 2) by (vm_compute; reflexivity).
+      assert (Hoff : h_off (slot g7 1) = 0) by (vm_compute; reflexivity).
+      assert (Hbuf : buf_filled (h_buf (slot g7 1)) = [5; 5]) by (vm_compute; reflexivity).
+      rewrite Hid, Hoff, Hbuf.
+      assert (Hwf : AllStreamsWf (cs g7)) by wf_of (cs g7).
+      destruct (big_check (cs g7) V6 ids6 Hwf) as [HB Hsi]; [vm_compute; reflexivity|].
+      left. left. split; [|unfold LenFits; arith].
+      left. exists V6, ids6. split; [exact HB|]. split; [exact Hsi|].
+      split; [arith|]. split; arith. }
+  Qed.
+
+  Example hist2_wf : forall l1 l2, hist2 = l1 ++ l2 ->
+    wf_check (concat_img (img (cs (fst (ReadonlyTotal.run_ops fA l1))))) = 0.
+  Proof.
+    intros l1 l2 E. apply (wf_data_history5 l1 l2 fA Example7.fA_w2). rewrite <- E. exact hist2_okE.
+  Qed.
+
+  Example hist2_w2 : W2 (cs (fst (ReadonlyTotal.run_ops fA hist2))).
+  Proof. exact (history_w2E hist2 fA Example7.fA_w2 hist2_okE). Qed.
+
+  Example hist2_evaluated :
+    wf_check (concat_img (img (cs gEnd))) = 0 /\ dinv_b (cs gEnd) = true /\ freeall_b (cs gEnd) = true /\
+    wf_check (concat_img (img (cs g3))) = 0 /\ minifat (cs g3) = [].
+  Proof. repeat split; vm_compute; reflexivity. Qed.
+End Example10.
+
+
+(* ================================================================== *)
+(* 13. migration small -> large                                        *)
+(* ================================================================== *)
+
+(* both tables move: the mini chain is released (MiniFAT trimmed), a FAT chain
+   is built from the free stack.  The FAT half is the pigeonhole step, the
+   mini half the frames of the release *)
+Section SmallToBig.
+Variables s s' : cstate.
+Variables (r r' : dirent) (rids mfids dids : list N).
+Variables (id : N) (e e' : dirent) (mids : list N).
+Hypothesis HCD : CohData' s.
+Hypothesis HSD : SD s r rids mfids dids.
+Hypothesis HD : DInv s.
+Hypothesis HFA : FreeAll s.
+Hypothesis HCD' : CohData' s'.
+Hypothesis HSD' : SD s' r' rids mfids dids.
+Hypothesis Hslen : slen s' = slen s.
+Hypothesis Hdifat : lenN (difat s) <= lenN (difat s').
+Hypothesis Hlen : lenN (dirs s') = lenN (dirs s).
+Hypothesis Hid : id <> ROOT_STREAM_ID.
+Hypothesis He : nthN (dirs s) id = Some e.
+Hypothesis He' : nthN (dirs s') id = Some e'.
+Hypothesis Hsm : SA.small_entry e.
+Hypothesis Hch : chain_ids_of (minifat s) (d_start e) = Ok mids.
+Hypothesis Hbig' : SA.big_entry e'.
+Hypothesis Hoth : forall j a, j <> id -> j <> ROOT_STREAM_ID -> nthN (dirs s) j = Some a ->
+  exists b, nthN (dirs s') j = Some b /\ tsl a b.
+Hypothesis Hcount :
+  nsect s' + lenN (free s) <= nsect s + lenN (free s') + ceil_div (d_len e') (slen s).
+Hypothesis Hmlen : lenN (minifat s') <= lenN (minifat s).
+Hypothesis HF : forall y w, ~ In y mids -> nthN (minifat s) y = Some w -> w <> FREE_SECTOR ->
+  nthN (minifat s') y = Some w.
+Hypothesis HB : forall y w, nthN (minifat s') y = Some w -> w <> FREE_SECTOR ->
+  nthN (minifat s) y = Some w /\ ~ In y mids.
+
+Let HC' : Coherent s' := cd_coh s' HCD'.
+
+Lemma stb_count :
+  nsect s' + lenN (free s) + lenN (bigl s e)
+  <= nsect s + lenN (free s') + (if big_b e' then ceil_div (d_len e') (slen s) else 0).
+Proof.
+  pose proof Hsm as (_ & _ & Hlt). rewrite (bigl_not_big s e Hlt).
+  rewrite (proj2 (big_b_true e') Hbig'). cbn [lenN]. lia.
+Qed.
+
+Lemma stb_sys : lenN rids <= lenN rids /\ lenN mfids <= lenN mfids /\ lenN dids <= lenN dids /\
+  lenN (difat s) <= lenN (difat s').
+Proof. repeat split; lia. Qed.
+
+Theorem small_to_big_dinv : DInv s' /\ FreeAll s'.
+Proof.
+  destruct Hbig' as (Ht' & Hb').
+  split.
+  - apply (cohdata'_exact_dinv s' HCD'). constructor.
+    + intros i x Hx Htx Hl. destruct (N.eq_dec i id) as [->|Hi].
+      * assert (x = e') by congruence. subst x. rewrite CUTOFF_val in Hb'. lia.
+      * destruct (ms2_back s s' id HC' Hlen Hoth i x Hx Htx Hi) as (a & Ha & (T1 & T2 & T3)).
+        rewrite T2. apply (di_empty s HD i a Ha); congruence.
+    + exact (fc2_exact s s' r r' rids mfids dids rids mfids dids id e e' HCD HSD HD HFA HCD' HSD'
+               Hslen stb_sys Hlen Hid He He' Hoth stb_count).
+    + intros i x ids Hx Htx Hp Hb Hl. destruct (N.eq_dec i id) as [->|Hi].
+      * assert (x = e') by congruence. subst x. lia.
+      * destruct (ms2_back s s' id HC' Hlen Hoth i x Hx Htx Hi) as (a & Ha & (T1 & T2 & T3)).
+        destruct (di_small s HD i a Ha ltac:(congruence) ltac:(lia) ltac:(lia)) as (l & Hl' & Hll).
+        assert (Hsa : SA.small_entry a) by (unfold SA.small_entry; rewrite <- T1, <- T3; auto).
+        pose proof (sr_chain s s' id e mids HD He Hsm Hch Hmlen HF i a l Hi Ha Hsa Hl') as Hl2.
+        rewrite <- T2 in Hl2. rewrite T3. congruence.
+    + exact (fc2_fcover s s' r r' rids mfids dids rids mfids dids id e e' HCD HSD HD HFA HCD' HSD'
+               Hslen stb_sys Hlen Hid He He' Hoth stb_count).
+    + intros y w Hy Hw. destruct (HB y w Hy Hw) as [Hy0 Hnm].
+      destruct (di_mini_cover s HD y w Hy0 Hw) as (i & Hi). exists i.
+      apply (sr_mowns_fwd s s' id e mids HCD HD He Hsm Hch Hoth Hmlen HF); [|exact Hi].
+      intros ->. apply Hnm. apply (sr_old s id e mids He Hsm Hch). exact Hi.
+  - exact (fc2_freeall s s' r r' rids mfids dids rids mfids dids id e e' HCD HSD HD HFA HCD' HSD'
+             Hslen stb_sys Hlen Hid He He' Hoth stb_count).
+Qed.
+End SmallToBig.
+
+(* ---- migration by resize: a small stream becomes large ---- *)
+Theorem resize_small_to_big_dinv : forall s id V new_len,
+  CohData' s -> DInv s -> FreeAll s -> small_content s id V ->
+  MINI_STREAM_CUTOFF <= new_len -> new_len <= MAX_REGULAR_SECTOR * slen s -> LenFits s new_len ->
+  (slen s + new_len - 1) / slen s <= lenN (free s) ->
+  exists s', resize id new_len s = (s', Ok tt) /\ CohData' s' /\ DInv s' /\ FreeAll s'.
+Proof.
+  intros s id V new_len HCD HD HFA Hsc Hcut2 Hmax Hmask Hroom.
+  pose proof (slen_pos s) as Hsp.
+  pose proof HCD as [HC (r & rids & mfids & dids & HSD) HF Hax]. pose proof HSD as [SW0 Hmdj].
+  pose proof (SA.sw_m _ _ _ _ _ _ SW0) as W.
+  destruct (SA.small_content_at _ _ _ _ _ _ _ W Hsc) as (e & mids & Hsm).
+  pose proof (small_at_lenV _ _ _ _ _ _ Hsm) as HlenV.
+  destruct (small_at_start _ _ _ _ _ _ Hsm) as (Hne & Hst & Hk).
+  pose proof (SA.small_at_entry _ _ _ _ _ _ Hsm) as Hse.
+  pose proof Hsm as (Hnth & Ht & Hcut & Hpos & Hch & Hgm & Hle & HV).
+  destruct (free_small_ready s r rids mfids dids id e mids HCD HSD Hnth Hse Hch)
+    as (s1 & r1 & Efree & HX1 & Hn1 & Ho1 & HRL & FM1).
+  pose proof FM1 as (G1 & G2 & _ & _ & G5 & G6 & _).
+  assert (Hsl1 : slen s1 = slen s) by (unfold slen; rewrite G1; reflexivity).
+  set (num := (slen s + new_len - 1) / slen s) in *.
+  assert (Hpos' : 0 < new_len) by (rewrite CUTOFF_val in *; lia).
+  destruct (ceil_props (slen s) new_len Hsp Hpos') as [Hc1 Hc2'']. fold num in Hc1, Hc2''.
+  assert (Etmp : takeN (d_len e) (dropN 0 (mchain_content s rids mids)) = V)
+    by (rewrite dropN_0; symmetry; exact HV).
+  destruct (write_all_ready s1 s1 r1 rids mfids dids id [] [] 0 V (ready_nil _ _ _ _ _ _ HX1))
+    as (s2 & nw1 & Ew1 & BR2 & Fr2 & N2 & Hfit1 & _ & Hh1).
+  { cbn [lenN]. lia. }
+  { cbn [lenN]. rewrite N.add_0_l, N.sub_0_r, HlenV, Hsl1, G6.
+    etransitivity; [|exact Hroom]. apply SA.div_mono; [exact Hsp | rewrite CUTOFF_val in *; lia]. }
+  cbn [app lenN] in *. rewrite N.add_0_l in *. rewrite HlenV, Hsl1 in *.
+  assert (Hnw1ne : nw1 <> []) by (intros ->; cbn [lenN] in Hfit1; lia).
+  pose proof (Hh1 eq_refl Hnw1ne) as Hhead2.
+  assert (Hnw1 : lenN nw1 <= num).
+  { assert (Hl1 : lenN nw1 = (d_len e + slen s - 1) / slen s).
+    { destruct (SA.chain_write_all_alloc s1 r1 rids mfids dids id [] 0 V)
+        as (s2' & nw1' & Ew1' & _ & _ & _ & Ln1 & _); try apply HX1.
+      - constructor.
+      - apply SA.owned_nil.
+      - cbn [lenN]. lia.
+      - cbn [lenN]. rewrite N.add_0_l, N.sub_0_r, HlenV, Hsl1, G6.
+        etransitivity; [|exact Hroom]. apply SA.div_mono; [exact Hsp | rewrite CUTOFF_val in *; lia].
+      - cbn [app lenN] in *. rewrite N.add_0_l, N.sub_0_r, HlenV, Hsl1 in *.
+        rewrite Ew1 in Ew1'. injection Ew1' as _ <-. exact Ln1. }
+    rewrite Hl1. unfold num. apply SA.div_mono; [exact Hsp | rewrite CUTOFF_val in *; lia]. }
+  assert (Hfl : lenN (free s) = lenN (free s2) + lenN nw1).
+  { rewrite <- G6, Fr2, lenN_app, WalkProofs.lenN_rev. reflexivity. }
+  destruct (split_stack (free s2) (N.to_nat (num - lenN nw1))) as (base & nw2 & Hfree2 & Hlen2).
+  { rewrite N2Nat.id. lia. }
+  destruct (grow_ready_from s1 s2 r1 rids mfids dids id nw1 nw1 base nw2 (d_len e) BR2 Hfree2)
+    as (s3 & Hgrow & BR3 & Fr3 & N3 & Hun3 & _).
+  rewrite Hlen2 in Hgrow.
+  assert (Hln2 : lenN nw2 = num - lenN nw1) by (rewrite (WalkProofs.lenN_length nw2), Hlen2, N2Nat.id; reflexivity).
+  assert (Hhead3 : unref (fat s3) (hd END_OF_CHAIN (nw1 ++ nw2))).
+  { rewrite (SA.hd_app_ne nw1 nw2 END_OF_CHAIN Hnw1ne).
+    destruct BR2 as (HC2 & _ & _ & P2 & O2 & _).
+    assert (Hin : In (hd END_OF_CHAIN nw1) nw1) by (destruct nw1; [contradiction|left; reflexivity]).
+    apply Hun3; [exact (coh_member_regular s2 _ nw1 _ HC2 P2 Hin)|exact Hhead2|].
+    intro Hin2. destruct (O2 _ Hin) as (_ & Hnf & _). apply Hnf.
+    rewrite Hfree2. apply in_or_app. right. apply in_rev in Hin2. exact Hin2. }
+  assert (Hcap3 : new_len <= slen s1 * lenN (nw1 ++ nw2)).
+  { rewrite Hsl1, lenN_app, Hln2. replace (lenN nw1 + (num - lenN nw1)) with num by lia. exact Hc1. }
+  destruct (big_finish_X s1 s3 r1 rids mfids dids id e (nw1 ++ nw2) (nw1 ++ nw2) new_len HX1 Hn1 Ht BR3 Hhead3 Hcut2 Hcap3)
+    as (s' & Eu & HCD' & _ & Ho & F' & N' & Hf' & Hv' & Hm' & Hd' & Hst32).
+  { unfold LenFits in *. rewrite G1. exact Hmask. }
+  assert (R : resize id new_len s = (s', Ok tt)).
+  { unfold resize. sred.
+    rewrite (stream_entry_ok s id e Hnth Ht). sred.
+    assert (E0 : (MAX_REGULAR_SECTOR * slen s <? new_len) = false) by (apply N.ltb_ge; exact Hmax).
+    rewrite E0. sred. rewrite (mask_check_false s new_len Hmask). sred.
+    assert (E2 : (d_start e =? END_OF_CHAIN) = false) by lia. rewrite E2.
+    assert (E3 : (d_len e <? MINI_STREAM_CUTOFF) = true) by lia. rewrite E3.
+    assert (E4 : (new_len =? 0) = false) by lia. rewrite E4.
+    assert (E5 : (new_len <? MINI_STREAM_CUTOFF) = false) by lia. rewrite E5.
+    rewrite (mchain_new_ok s _ mids Hch).
+    rewrite (mchain_read_spec s rids (mkMChain mids 0) (d_len e) Hgm)
+      by (unfold mchain_len; cbn [mc_ids mc_off]; rewrite MSL_64; lia).
+    cbn [mc_ids mc_off]. rewrite Etmp.
+    rewrite SA.mchain_start_hd. rewrite SA.mchain_start_hd in Hst. rewrite Hst, Efree.
+    rewrite (chain_new_exec s1 END_OF_CHAIN IZero [] (SA.chain_of_path _ _ _ (WalkProofs.path_nil _))).
+    rewrite Ew1.
+    assert (Hsl2 : slen s2 = slen s).
+    { destruct BR2 as (_ & _ & _ & _ & _ & HQ2 & _).
+      destruct (SA.Q_fields s1 s2 HQ2) as (_ & _ & _ & _ & _ & _ & H). rewrite H. exact Hsl1. }
+    rewrite (SA.chain_set_len_ge s2 (mkChain IZero nw1 (d_len e)) new_len).
+    - cbn [c_ids]. rewrite Hsl2. fold num. rewrite Hgrow. rewrite SA.chain_start_hd. exact Eu.
+    - rewrite Hsl2, StoreProofs.two64_val. rewrite MAXREG_val in Hmax.
+      destruct (slen_cases s) as [E|E]; rewrite E in *; lia.
+    - exact Hpos'.
+    - cbn [c_ids]. rewrite Hsl2. fold num. exact Hnw1. }
+  (* the capacity chains of [s'] *)
+  destruct (ready_sw _ _ _ _ _ _ _ _ _ BR3) as [SW3 HQ3].
+  destruct (SA.Q_fields s1 s3 HQ3) as (Qmf & _ & _ & Qdirs & _ & _ & Qsl).
+  pose proof BR3 as (_ & _ & _ & P3 & O3 & _).
+  destruct (SA.finish_big s3 r1 rids mfids dids id e (nw1 ++ nw2) new_len SW3
+              ltac:(rewrite Qdirs; exact Hn1) Ht P3 O3 Hcut2 ltac:(rewrite Qsl; exact Hcap3))
+    as (s'' & Eu'' & _ & SW' & _).
+  assert (s'' = s') by congruence. subst s''.
+  (* the mini level *)
+  pose proof Efree as Erun. unfold free_mini_chain in Erun. rewrite bind_get in Erun.
+  pose proof (WalkProofs.chain_ids_path _ _ _ Hch) as Hp.
+  destruct (SA.free_mini_chain_go_spec mids (S (S (length (minifat s)))) (d_start e) s r rids mfids dids W
+              Hp (path_length_fuel _ _ _ Hp))
+    as (sx & rx & Ex & _ & _ & _ & _ & _ & Lx & Kx).
+  rewrite Erun in Ex. injection Ex as <-.
+  pose proof (free_mini_chain_go_back mids _ (d_start e) s r rids mfids dids s1 HC (CohData'_MD s HCD)
+                (ax_mfree s Hax) W Hp ltac:(intros _; exact (ax_mheads s Hax id e Hnth Hse)) Erun) as Hback.
+  pose proof HRL as (RL & RO & _).
+  assert (Hidr : id <> ROOT_STREAM_ID) by exact (stream_not_root s id e HC Hnth Ht).
+  pose proof (nthN_Some_lt _ _ _ _ Hn1) as Hidlt.
+  assert (Hsl' : slen s' = slen s) by (unfold slen; rewrite Hv', G1; reflexivity).
+  destruct (small_to_big_dinv s s' r r1 rids mfids dids id e
+              (set_start_len e (hd END_OF_CHAIN (nw1 ++ nw2)) new_len) mids
+              HCD HSD HD HFA HCD' (conj SW' Hmdj) Hsl') as [HD' HFA']; try assumption.
+  - apply difat_len_mono; [exact HC|exact (cd_coh s' HCD')|exact Hsl'|]. rewrite N', N3, N2, G2. lia.
+  - rewrite Hd', lenN_updN. exact RL.
+  - rewrite Hd'. apply nthN_updN_same. exact Hidlt.
+  - split; [exact Ht|exact Hcut2].
+  - intros j a Hj Hr Ha. exists a. split; [|apply tsl_refl].
+    rewrite Hd', nthN_updN_other by congruence. rewrite (RO j Hr). exact Ha.
+  - cbn [set_start_len d_len]. rewrite ceil_div_comm'. fold num.
+    rewrite N', N3, N2, G2, F', Fr3. rewrite <- G6, Fr2, Hfree2, !lenN_app, !WalkProofs.lenN_rev. lia.
+  - rewrite Hm'. exact Lx.
+  - intros y w Hy Hcy Hw. rewrite Hm'. exact (Kx y w Hy Hcy Hw).
+  - intros y w Hy Hw. rewrite Hm' in Hy. exact (Hback y w Hy Hw).
+  - exists s'. auto.
+Qed.
+
+
+(* ---- migration by write: a small stream becomes large ---- *)
+Theorem write_small_to_big_dinv : forall s id V off buf,
+  CohData' s -> DInv s -> FreeAll s -> small_content s id V -> off <= lenN V ->
+  MINI_STREAM_CUTOFF <= off + lenN buf ->
+  off + lenN buf <= N.min (MAX_REGULAR_SECTOR * slen s) (stream_len_mask (ver s)) ->
+  (off + lenN buf + slen s - 1) / slen s <= lenN (free s) ->
+  exists s', write_data id off buf s = (s', Ok tt) /\ CohData' s' /\ DInv s' /\ FreeAll s'.
+Proof.
+  intros s id V off buf HCD HD HFA Hsc Hoff Hcut2 Hbounds Hroom.
+  pose proof (slen_pos s) as Hsp.
+  pose proof HCD as [HC (r & rids & mfids & dids & HSD) HF Hax]. pose proof HSD as [SW0 Hmdj].
+  pose proof (SA.sw_m _ _ _ _ _ _ SW0) as W.
+  destruct (SA.small_content_at _ _ _ _ _ _ _ W Hsc) as (e & mids & Hsm).
+  pose proof (small_at_lenV _ _ _ _ _ _ Hsm) as HlenV. rewrite HlenV in Hoff.
+  destruct (small_at_start _ _ _ _ _ _ Hsm) as (Hne & Hst & Hk).
+  pose proof (SA.small_at_entry _ _ _ _ _ _ Hsm) as Hse.
+  pose proof Hsm as (Hnth & Ht & Hcut & Hpos & Hch & Hgm & Hle & HV).
+  pose proof (good_mchain_len _ _ _ Hgm) as HL0.
+  destruct (free_small_ready s r rids mfids dids id e mids HCD HSD Hnth Hse Hch)
+    as (s1 & r1 & Efree & HX1 & Hn1 & Ho1 & HRL & FM1).
+  pose proof FM1 as (G1 & G2 & _ & _ & G5 & G6 & _).
+  assert (Hsl1 : slen s1 = slen s) by (unfold slen; rewrite G1; reflexivity).
+  set (tmp := takeN off (dropN 0 (mchain_content s rids mids))).
+  assert (Hltmp : lenN tmp = off) by (unfold tmp; rewrite dropN_0, lenN_takeN; lia).
+  pose proof (ready_nil _ _ _ _ _ _ HX1) as BR1.
+  destruct (write_all_ready s1 s1 r1 rids mfids dids id [] [] 0 tmp BR1)
+    as (s2 & nw1 & Ew1 & BR2 & Fr2 & N2 & Hfit1 & _ & Hh1).
+  { cbn [lenN]. lia. }
+  { cbn [lenN]. rewrite N.add_0_l, N.sub_0_r, Hltmp, Hsl1, G6.
+    etransitivity; [|exact Hroom]. apply SA.div_mono; lia. }
+  destruct (SA.chain_write_all_alloc s1 r1 rids mfids dids id [] 0 tmp)
+    as (s2' & nw1' & Ew1' & _ & _ & _ & Ln1 & _); try apply HX1.
+  { constructor. }
+  { apply SA.owned_nil. }
+  { cbn [lenN]. lia. }
+  { cbn [lenN]. rewrite N.add_0_l, N.sub_0_r, Hltmp, Hsl1, G6.
+    etransitivity; [|exact Hroom]. apply SA.div_mono; lia. }
+  rewrite Ew1 in Ew1'. injection Ew1' as <- Enw. cbn [app] in Enw. subst nw1'.
+  cbn [app lenN] in *. rewrite N.add_0_l in *. rewrite N.sub_0_r in Ln1. rewrite Hltmp, Hsl1 in *.
+  assert (Hfl : lenN (free s) = lenN (free s2) + lenN nw1).
+  { rewrite <- G6, Fr2, lenN_app, WalkProofs.lenN_rev. reflexivity. }
+  destruct (ready_sw _ _ _ _ _ _ _ _ _ BR2) as [SW2 HQ2].
+  destruct (SA.Q_fields s1 s2 HQ2) as (_ & _ & _ & _ & _ & _ & Qsl2).
+  pose proof BR2 as (_ & _ & _ & P2 & O2 & _).
+  destruct (write_all_ready s1 s2 r1 rids mfids dids id nw1 nw1 off buf BR2)
+    as (s3 & nw2 & Ew2 & BR3 & Fr3 & N3 & Hfit2 & Hun3 & Hh2).
+  { rewrite Hsl1. exact Hfit1. }
+  { rewrite Hsl1. lia. }
+  destruct (SA.chain_write_all_alloc s2 r1 rids mfids dids id nw1 off buf SW2 P2 O2)
+    as (s3' & nw2' & Ew2' & _ & _ & _ & Ln2 & _).
+  { rewrite Qsl2, Hsl1. exact Hfit1. }
+  { rewrite Qsl2, Hsl1. lia. }
+  rewrite Ew2 in Ew2'. injection Ew2' as <- Enw. apply app_inv_head in Enw. subst nw2'.
+  rewrite Qsl2 in Ln2.
+  rewrite Hsl1 in *.
+  assert (Hallne : nw1 ++ nw2 <> []).
+  { intro E. rewrite E in Hfit2. cbn [lenN] in Hfit2. rewrite CUTOFF_val in Hcut2. lia. }
+  assert (Hhead3 : unref (fat s3) (hd END_OF_CHAIN (nw1 ++ nw2))).
+  { destruct nw1 as [|x1 t1].
+    - cbn [app] in *. apply Hh2; [reflexivity|exact Hallne].
+    - cbn [app hd].
+      destruct BR2 as (HC2 & _ & _ & P2' & O2' & _).
+      assert (Hin : In x1 (x1 :: t1)) by (left; reflexivity).
+      apply Hun3; [exact (coh_member_regular s2 _ _ _ HC2 P2' Hin)|exact (Hh1 eq_refl ltac:(discriminate))|].
+      intro Hin2. destruct (O2' _ Hin) as (_ & Hnf & _). apply Hnf.
+      rewrite Fr3. apply in_or_app. right. apply in_rev in Hin2. exact Hin2. }
+  set (ln := N.max (d_len e) (off + lenN buf)).
+  assert (Eln : ln = off + lenN buf) by (unfold ln; lia).
+  assert (Hcap3 : ln <= slen s1 * lenN (nw1 ++ nw2)) by (rewrite Hsl1, Eln; exact Hfit2).
+  destruct (big_finish_X s1 s3 r1 rids mfids dids id e (nw1 ++ nw2) (nw1 ++ nw2) ln HX1 Hn1 Ht BR3 Hhead3
+              ltac:(lia) Hcap3)
+    as (s' & Eu & HCD' & _ & Ho & F' & N' & Hf' & Hv' & Hm' & Hd' & Hst32).
+  { unfold LenFits. rewrite G1, Eln. lia. }
+  assert (R : write_data id off buf s = (s', Ok tt)).
+  { unfold write_data. sred.
+    rewrite (stream_entry_ok s id e Hnth Ht). sred.
+    assert (E1 : (d_len e <? off) = false) by lia. rewrite E1.
+    fold ln.
+    replace (N.min (MAX_REGULAR_SECTOR * slen s) (stream_len_mask (ver s)) <? ln)
+      with false by (symmetry; apply N.ltb_ge; rewrite Eln; exact Hbounds).
+    assert (E2 : (d_start e =? END_OF_CHAIN) = false) by lia. rewrite E2.
+    assert (E3 : (d_len e <? MINI_STREAM_CUTOFF) = true) by lia. rewrite E3.
+    assert (E4 : (ln <? MINI_STREAM_CUTOFF) = false) by lia. rewrite E4.
+    assert (E5 : (MINI_STREAM_CUTOFF <=? off) = false) by lia. rewrite E5.
+    rewrite (mchain_new_ok s _ mids Hch).
+    rewrite (mchain_read_spec s rids (mkMChain mids 0) off Hgm)
+      by (unfold mchain_len; cbn [mc_ids mc_off]; rewrite MSL_64; lia).
+    cbn [mc_ids mc_off]. fold tmp.
+    rewrite SA.mchain_start_hd. rewrite SA.mchain_start_hd in Hst. rewrite Hst, Efree.
+    rewrite (chain_new_exec s1 END_OF_CHAIN IZero [] (SA.chain_of_path _ _ _ (WalkProofs.path_nil _))).
+    rewrite Ew1. rewrite Ew2. rewrite SA.chain_start_hd. exact Eu. }
+  destruct (ready_sw _ _ _ _ _ _ _ _ _ BR3) as [SW3 HQ3].
+  destruct (SA.Q_fields s1 s3 HQ3) as (Qmf & _ & _ & Qdirs & _ & _ & Qsl).
+  pose proof BR3 as (_ & _ & _ & P3 & O3 & _).
+  destruct (SA.finish_big s3 r1 rids mfids dids id e (nw1 ++ nw2) ln SW3
+              ltac:(rewrite Qdirs; exact Hn1) Ht P3 O3 ltac:(lia) ltac:(rewrite Qsl; exact Hcap3))
+    as (s'' & Eu'' & _ & SW' & _).
+  assert (s'' = s') by congruence. subst s''.
+  pose proof Efree as Erun. unfold free_mini_chain in Erun. rewrite bind_get in Erun.
+  pose proof (WalkProofs.chain_ids_path _ _ _ Hch) as Hp.
+  destruct (SA.free_mini_chain_go_spec mids (S (S (length (minifat s)))) (d_start e) s r rids mfids dids W
+              Hp (path_length_fuel _ _ _ Hp))
+    as (sx & rx & Ex & _ & _ & _ & _ & _ & Lx & Kx).
+  rewrite Erun in Ex. injection Ex as <-.
+  pose proof (free_mini_chain_go_back mids _ (d_start e) s r rids mfids dids s1 HC (CohData'_MD s HCD)
+                (ax_mfree s Hax) W Hp ltac:(intros _; exact (ax_mheads s Hax id e Hnth Hse)) Erun) as Hback.
+  pose proof HRL as (RL & RO & _).
+  assert (Hidr : id <> ROOT_STREAM_ID) by exact (stream_not_root s id e HC Hnth Ht).
+  pose proof (nthN_Some_lt _ _ _ _ Hn1) as Hidlt.
+  assert (Hsl' : slen s' = slen s) by (unfold slen; rewrite Hv', G1; reflexivity).
+  destruct (small_to_big_dinv s s' r r1 rids mfids dids id e
+              (set_start_len e (hd END_OF_CHAIN (nw1 ++ nw2)) ln) mids
+              HCD HSD HD HFA HCD' (conj SW' Hmdj) Hsl') as [HD' HFA']; try assumption.
+  - apply difat_len_mono; [exact HC|exact (cd_coh s' HCD')|exact Hsl'|]. rewrite N', N3, N2, G2. lia.
+  - rewrite Hd', lenN_updN. exact RL.
+  - rewrite Hd'. apply nthN_updN_same. exact Hidlt.
+  - split; [exact Ht|]. cbn [set_start_len d_len]. lia.
+  - intros j a Hj Hr Ha. exists a. split; [|apply tsl_refl].
+    rewrite Hd', nthN_updN_other by congruence. rewrite (RO j Hr). exact Ha.
+  - cbn [set_start_len d_len]. rewrite Eln. unfold ceil_div.
+    rewrite N', N3, N2, G2, F'. rewrite <- G6, Fr2, Fr3, !lenN_app, !WalkProofs.lenN_rev, Ln2, Ln1.
+    assert ((off + slen s - 1) / slen s <= (off + lenN buf + slen s - 1) / slen s)
+      by (apply SA.div_mono; lia).
+    lia.
+  - rewrite Hm'. exact Lx.
+  - intros y w Hy Hcy Hw. rewrite Hm'. exact (Kx y w Hy Hcy Hw).
+  - intros y w Hy Hw. rewrite Hm' in Hy. exact (Hback y w Hy Hw).
+  - exists s'. auto.
+Qed.
+
+(* ================================================================== *)
+(* 14. histories: everything of [hist_ok2] except large -> small        *)
+(* ================================================================== *)
+Definition ResizeCaseF (s : cstate) (id n : N) : Prop :=
+  ResizeCaseE s id n \/
+  (exists V, small_content s id V /\ MINI_STREAM_CUTOFF <= n /\ n <= MAX_REGULAR_SECTOR * slen s /\
+     LenFits s n /\ (slen s + n - 1) / slen s <= lenN (free s)).
+
+Lemma ResizeCaseF_ResizeCase : forall s id n, ResizeCaseF s id n -> ResizeCase s id n.
+Proof.
+  intros s id n [H|H]; [exact (ResizeCaseE_ResizeCase s id n H)|]. unfold ResizeCase.
+  do 7 right. left. exact H.
+Qed.
+
+Theorem resize_caseF_w2 : forall s id n,
+  W2 s -> ResizeCaseF s id n -> exists s', resize id n s = (s', Ok tt) /\ W2 s'.
+Proof.
+  intros s id n HW HR0. pose proof HR0 as HR.
+  destruct HR as [HR|(V & Hsc & H1 & H2 & H3 & H4)]; [exact (resize_caseE_w2 s id n HW HR)|].
+  pose proof HW as (HT & HD & HFA & HTd). pose proof (proj1 HT) as HCD.
+  destruct (resize_case_cohtree s id n HT (ResizeCaseF_ResizeCase s id n HR0)) as (s0 & R0 & HT0 & _).
+  destruct (small_content_stream s id V Hsc) as (e & Hn & Ht).
+  destruct (resize_small_to_big_dinv s id V n HCD HD HFA Hsc H1 H2 H3 H4) as (s' & R & _ & HD' & HFA').
+  assert (s0 = s') by congruence. subst s0.
+  exists s'. split; [exact R|]. apply (w2_after s s' id e HW Hn Ht HT0 HD' HFA').
+  pose proof (framesR_resize id n s) as D. rewrite R in D. exact D.
+Qed.
+
+Definition WriteCaseF (s : cstate) (id off : N) (buf : list byte) : Prop :=
+  WriteCaseE s id off buf \/
+  (exists V, small_content s id V /\ off <= lenN V /\ MINI_STREAM_CUTOFF <= off + lenN buf /\
+     off + lenN buf <= N.min (MAX_REGULAR_SECTOR * slen s) (stream_len_mask (ver s)) /\
+     (off + lenN buf + slen s - 1) / slen s <= lenN (free s)).
+
+Lemma WriteCaseF_WriteCase : forall s id off buf, WriteCaseF s id off buf -> WriteCase s id off buf.
+Proof.
+  intros s id off buf [H|H]; [exact (WriteCaseE_WriteCase s id off buf H)|]. unfold WriteCase.
+  do 4 right. left. exact H.
+Qed.
+
+Theorem write_caseF_w2 : forall s id off buf,
+  W2 s -> WriteCaseF s id off buf -> exists s', write_data id off buf s = (s', Ok tt) /\ W2 s'.
+Proof.
+  intros s id off buf HW HC0. pose proof HC0 as HC.
+  destruct HC as [HC|(V & Hsc & H1 & H2 & H3 & H4)]; [exact (write_caseE_w2 s id off buf HW HC)|].
+  pose proof HW as (HT & HD & HFA & HTd). pose proof (proj1 HT) as HCD.
+  destruct (write_case_cohtree s id off buf HT (WriteCaseF_WriteCase s id off buf HC0)) as (s0 & R0 & HT0 & _).
+  destruct (small_content_stream s id V Hsc) as (e & Hn & Ht).
+  destruct (write_small_to_big_dinv s id V off buf HCD HD HFA Hsc H1 H2 H3 H4) as (s' & R & _ & HD' & HFA').
+  assert (s0 = s') by congruence. subst s0.
+  exists s'. split; [exact R|]. apply (w2_after s s' id e HW Hn Ht HT0 HD' HFA').
+  pose proof (framesR_write_data id off buf s) as D. rewrite R in D. exact D.
+Qed.
+
+Definition CWdF (id off : N) (bs : list byte) (s : cstate) : Prop := WriteCaseF s id off bs.
+Definition CRdF (id n : N) (s : cstate) : Prop := ResizeCaseF s id n.
+Definition cov_flushF (h : handle) (s : cstate) : Prop :=
+  h_dirty h = true -> CWdF (h_id h) (h_off h) (buf_filled (h_buf h)) s.
+Definition covered_opF (o : op) (h : handle) (s : cstate) : Prop :=
+  match o with
+  | OHRead _ _ | OHFill _ | OHWrite _ _ | OHSeek _ _ _ | OHFlush _ | OHDrop _ => cov_flushF h s
+  | OHSetLen _ n =>
+      cov_flushF h s /\ (n <> h_total h -> CRdF (h_id h) n (fst (flush_changes' h s)))
+  | _ => True
+  end.
+
+Lemma w2_wrF : forall id off bs s, W2 s -> CWdF id off bs s ->
+  W2 (fst (write_data id off bs s)) /\ Rtriv id s (fst (write_data id off bs s)).
+Proof.
+  intros id off bs s HG HC. destruct (write_caseF_w2 s id off bs HG HC) as (s' & E & H).
+  rewrite E. split; [exact H|exact I].
+Qed.
+Lemma w2_rsF : forall id n s, W2 s -> CRdF id n s ->
+  W2 (fst (resize id n s)) /\ Rtriv id s (fst (resize id n s)).
+Proof.
+  intros id n s HG HC. destruct (resize_caseF_w2 s id n HG HC) as (s' & E & H).
+  rewrite E. split; [exact H|exact I].
+Qed.
+
+Theorem hop_run_w2F : forall o h s, W2 s -> covered_opF o h s -> W2 (fst (hop_run o h s)).
+Proof.
+  intros o h s HA HC.
+  assert (Rr : forall id s0, Rtriv id s0 s0) by (intros; exact I).
+  assert (Rt : forall id a b c, Rtriv id a b -> Rtriv id b c -> Rtriv id a c) by (intros; exact I).
+  pose proof (h_read_C cstate read_data write_data stream_len_of W2 Rtriv CWdF Rr Rt w2_rd w2_sl w2_wrF) as Xread.
+  pose proof (h_fill_buf_C cstate read_data write_data stream_len_of W2 Rtriv CWdF Rr Rt w2_rd w2_sl w2_wrF) as Xfill.
+  pose proof (h_write_C cstate write_data stream_len_of W2 Rtriv CWdF Rr Rt w2_sl w2_wrF) as Xwrite.
+  pose proof (h_seek_C cstate write_data stream_len_of W2 Rtriv CWdF Rr Rt w2_sl w2_wrF) as Xseek.
+  pose proof (h_set_len_C cstate write_data resize stream_len_of W2 Rtriv CWdF CRdF Rr Rt w2_sl w2_wrF w2_rsF) as Xsetlen.
+  pose proof (h_flush_C cstate write_data stream_len_of W2 Rtriv CWdF Rr Rt w2_sl w2_wrF) as Xflush.
+  pose proof (flush_changes_C cstate write_data stream_len_of W2 Rtriv CWdF Rr Rt w2_sl w2_wrF) as Xfc.
+  destruct o; cbn [hop_run covered_opF] in *; cbv zeta; cbn [fst snd]; try exact HA.
+  - exact (proj1 (proj1 (Xread h n s HA HC))).
+  - exact (proj1 (proj1 (Xfill h s HA HC))).
+  - exact (proj1 (proj1 (Xwrite h bs s HA HC))).
+  - exact (proj1 (proj1 (Xseek h w z s HA HC))).
+  - destruct HC as [HC1 HC2]. exact (proj1 (proj1 (Xsetlen h n s HA HC1 HC2))).
+  - exact (proj1 (proj1 (Xflush h s HA HC))).
+  - exact (proj1 (proj1 (Xfc h s HA HC))).
+Qed.
+
+Definition step_okF (f : fstate) (o : op) : Prop :=
+  match handle_slot o with
+  | Some i => forall h, nthN (hs f) i = Some (Some h) -> covered_opF o h (cs f)
+  | None => step_okE f o
+  end.
+
+Theorem step_w2F : forall f now o, W2 (cs f) -> step_okF f o -> W2 (cs (fst (step f now o))).
+Proof.
+  intros f now o HG Hok. unfold step_okF in Hok.
+  destruct (handle_slot o) as [i|] eqn:Eslot.
+  - destruct (nthN (hs f) i) as [[h|]|] eqn:Eh.
+    + destruct (step f now o) as [f' r] eqn:Es. cbn [fst].
+      destruct (step_handle_shape f now o i h f' r Eslot Eh Es) as (E1 & _).
+      rewrite E1. exact (hop_run_w2F o h (cs f) HG (Hok h eq_refl)).
+    + rewrite (step_no_handle f now o i Eslot); [exact HG|]. intros h E. rewrite Eh in E. discriminate E.
+    + rewrite (step_no_handle f now o i Eslot); [exact HG|]. intros h E. rewrite Eh in E. discriminate E.
+  - apply step_w2E; [exact HG|]. exact Hok.
+Qed.
+
+Fixpoint hist_okF (f : fstate) (l : list (N * op)) : Prop :=
+  match l with
+  | [] => True
+  | (now, o) :: t => step_okF f o /\ hist_okF (fst (step f now o)) t
+  end.
+
+Theorem history_w2F : forall l f, W2 (cs f) -> hist_okF f l -> W2 (cs (fst (ReadonlyTotal.run_ops f l))).
+Proof.
+  induction l as [|[now o] t IH]; intros f HG Hrun; [exact HG|].
+  cbn [hist_okF] in Hrun. destruct Hrun as [Hok Hrun].
+  rewrite PersistProofs.run_ops_cons. apply IH; [|exact Hrun]. apply step_w2F; assumption.
+Qed.
+
+Lemma hist_okF_app : forall l1 l2 f, hist_okF f (l1 ++ l2) -> hist_okF f l1.
+Proof.
+  induction l1 as [|[now o] t IH]; intros l2 f H; [exact I|].
+  cbn [app hist_okF] in *. destruct H as [H1 H2]. split; [exact H1|]. eapply IH. exact H2.
+Qed.
+
+(* the largest fragment: [hist_ok2] without the migration large -> small
+   (ResizeCase 9) *)
+Theorem wf_data_history6 : forall (l1 l2 : list (N * op)) f,
+  W2 (cs f) -> hist_okF f (l1 ++ l2) ->
+  wf_check (concat_img (img (cs (fst (ReadonlyTotal.run_ops f l1))))) = 0.
+Proof.
+  intros l1 l2 f HG Hrun. apply w2_image_wf.
+  apply history_w2F; [exact HG|]. eapply hist_okF_app. exact Hrun.
+Qed.
+
+(* non-vacuity with a migration: the large stream "/b" is removed (ten sectors
+   go to the free stack), then "/a" grows from 100 bytes in the mini stream to
+   4200 bytes in nine of those sectors (the MiniFAT is trimmed to nothing),
+   then the file is reopened *)
+Module Example11.
+  Import HandleFrame.Example DataPersist.Example Example1 Example4.
+
+  Definition hist7 : list (N * op) :=
+    [(0, ORemoveStream [47; 98]); (0, OHSetLen 0 4200); (0, OReopen true)].
+  Definition q1 : fstate := Eval vm_compute in fst (step fA 0 (ORemoveStream [47; 98])).
+  Definition q2 : fstate := Eval vm_compute in fst (step q1 0 (OHSetLen 0 4200)).
+
+  Example hist7_results : snd (ReadonlyTotal.run_ops fA hist7) = [Ok VUnit; Ok VUnit; Ok VUnit].
+  Proof. vm_compute. reflexivity. Qed.
+
+  Example hist7_ok : hist_okF fA hist7.
+  Proof.
+    assert (A0 : nthN (hs q1) 0 = Some (Some (slot q1 0))) by (vm_compute; reflexivity).
+    unfold hist7. cbn [hist_okF].
+    change (fst (step fA 0 (ORemoveStream [47; 98]))) with q1.
+    change (fst (step q1 0 (OHSetLen 0 4200))) with q2.
+    unfold step_okF, step_okE. cbn [handle_slot query_op].
+    split.
+    { exists 2. eexists. split; [vm_compute; reflexivity|]. split; [vm_compute; reflexivity|].
+      split; [left|]; vm_compute; reflexivity. }
+    split.
+    { intros h E. the_handle E A0. cbn [covered_opF]. split; [clean_flush|]. intros _.
+      rewrite flush_clean by (vm_compute; reflexivity). cbn [fst].
+      assert (Hid : h_id (slot q1 0) = 1) by (vm_compute; reflexivity). rewrite Hid.
+      right. exists bytes100. split.
+      { apply SA.small_bytes_sound; [apply SA.swf_b_sound; vm_compute; reflexivity|vm_compute; reflexivity]. }
+      split; [vm_compute; discriminate|]. split; [vm_compute; discriminate|].
+      split; [unfold LenFits; vm_compute; discriminate|vm_compute; discriminate]. }
+    split; [apply all_clean_b_sound; vm_compute; reflexivity|exact I].
+  Qed.
+
+  Example hist7_wf : forall l1 l2, hist7 = l1 ++ l2 ->
+    wf_check (concat_img (img (cs (fst (ReadonlyTotal.run_ops fA l1))))) = 0.
+  Proof.
+    intros l1 l2 E. apply (wf_data_history6 l1 l2 fA Example7.fA_w2). rewrite <- E. exact hist7_ok.
+  Qed.
+
+  Example hist7_evaluated :
+    let s := cs (fst (ReadonlyTotal.run_ops fA hist7)) in
+    wf_check (concat_img (img s)) = 0 /\ dinv_b s = true /\ freeall_b s = true /\
+    minifat s = [] /\ free s = [4].
+  Proof. repeat split; vm_compute; reflexivity. Qed.
+End Example11.
+
+
+(* ================================================================== *)
+(* 15. migration large -> small                                        *)
+(* ================================================================== *)
+
+(* the FAT chain goes to the free stack (pigeonhole step), a mini chain is
+   built from FREE / appended mini sectors (frames + tightness) *)
+Section BigToSmall.
+Variables s s' : cstate.
+Variables (r r' : dirent) (rids mfids dids : list N).
+Variables (id : N) (e e' : dirent) (ids news : list N).
+Hypothesis HCD : CohData' s.
+Hypothesis HSD : SD s r rids mfids dids.
+Hypothesis HD : DInv s.
+Hypothesis HFA : FreeAll s.
+Hypothesis HCD' : CohData' s'.
+Hypothesis HSD' : SD s' r' rids mfids dids.
+Hypothesis Hslen : slen s' = slen s.
+Hypothesis Hdifat : lenN (difat s) <= lenN (difat s').
+Hypothesis Hlen : lenN (dirs s') = lenN (dirs s).
+Hypothesis Hid : id <> ROOT_STREAM_ID.
+Hypothesis He : nthN (dirs s) id = Some e.
+Hypothesis He' : nthN (dirs s') id = Some e'.
+Hypothesis Hbig : SA.big_entry e.
+Hypothesis Hc : chain_ids_of (fat s) (d_start e) = Ok ids.
+Hypothesis Hsm' : SA.small_entry e'.
+Hypothesis Hch' : chain_ids_of (minifat s') (d_start e') = Ok news.
+Hypothesis Hexact : lenN news = ceil_div (d_len e') MINI_SECTOR_LEN.
+Hypothesis Hoth : forall j, j <> ROOT_STREAM_ID -> j <> id -> nthN (dirs s') j = nthN (dirs s) j.
+Hypothesis Hcount : nsect s' + lenN (free s) + lenN ids <= nsect s + lenN (free s').
+Hypothesis Hmlen : lenN (minifat s) <= lenN (minifat s').
+Hypothesis Hframe : forall y, ~ In y news -> y < lenN (minifat s) ->
+  nthN (minifat s') y = nthN (minifat s) y.
+Hypothesis Hfresh : forall x, In x news -> SA.fresh (minifat s) x.
+Hypothesis Htight : forall y, y < lenN (minifat s') -> y < lenN (minifat s) \/ In y news.
+
+Let HC : Coherent s := cd_coh s HCD.
+Let HC' : Coherent s' := cd_coh s' HCD'.
+
+Lemma bts_oth : forall j a, j <> id -> j <> ROOT_STREAM_ID -> nthN (dirs s) j = Some a ->
+  exists b, nthN (dirs s') j = Some b /\ tsl a b.
+Proof. intros j a Hj Hr Ha. exists a. split; [rewrite (Hoth j Hr Hj); exact Ha|apply tsl_refl]. Qed.
+
+Lemma bts_count :
+  nsect s' + lenN (free s) + lenN (bigl s e)
+  <= nsect s + lenN (free s') + (if big_b e' then ceil_div (d_len e') (slen s) else 0).
+Proof.
+  rewrite (bigl_big s e ids Hbig Hc).
+  assert (Eb : big_b e' = false).
+  { destruct (big_b e') eqn:E; [|reflexivity]. apply big_b_true in E. destruct Hsm' as (_ & _ & Hlt). lia. }
+  rewrite Eb. lia.
+Qed.
+
+Lemma bts_sys : lenN rids <= lenN rids /\ lenN mfids <= lenN mfids /\ lenN dids <= lenN dids /\
+  lenN (difat s) <= lenN (difat s').
+Proof. repeat split; lia. Qed.
+
+Lemma bts_stream_back : forall j x, nthN (dirs s') j = Some x -> d_type x = TStream -> j <> id ->
+  nthN (dirs s) j = Some x.
+Proof.
+  intros j x Hx Htx Hj. destruct (N.eq_dec j ROOT_STREAM_ID) as [->|Hr].
+  - rewrite (coherent_root_type s' x HC' Hx) in Htx. discriminate Htx.
+  - rewrite <- (Hoth j Hr Hj). exact Hx.
+Qed.
+
+Lemma bts_stream_fwd : forall j x, nthN (dirs s) j = Some x -> d_type x = TStream -> j <> id ->
+  nthN (dirs s') j = Some x.
+Proof.
+  intros j x Hx Htx Hj. destruct (N.eq_dec j ROOT_STREAM_ID) as [->|Hr].
+  - rewrite (coherent_root_type s x HC Hx) in Htx. discriminate Htx.
+  - rewrite (Hoth j Hr Hj). exact Hx.
+Qed.
+
+Lemma bts_chain : forall l st, chain_ids_of (minifat s) st = Ok l ->
+  chain_ids_of (minifat s') st = Ok l.
+Proof.
+  intros l st Hl. apply (chain_transfer (minifat s)); [exact Hl|exact Hmlen|].
+  intros x Hx. apply Hframe; [|exact (chain_ids_lt _ _ _ _ Hl Hx)].
+  intro Hin. destruct (chain_cell _ _ _ _ Hl Hx) as (v & Hv & Hr).
+  pose proof (Hfresh x Hin v Hv). markers. lia.
+Qed.
+
+Lemma bts_mowns_fwd : forall i x, mowns s i x -> mowns s' i x.
+Proof.
+  intros i x (a & l & Ha & Hta & Hp & Hb & Hl & Hx).
+  assert (Hi : i <> id).
+  { intros ->. assert (a = e) by congruence. subst a. destruct Hbig as (_ & Hge). lia. }
+  exists a, l. split; [exact (bts_stream_fwd i a Ha Hta Hi)|].
+  pose proof (bts_chain l (d_start a) Hl). auto 10.
+Qed.
+
+Theorem big_to_small_dinv : DInv s' /\ FreeAll s'.
+Proof.
+  destruct Hsm' as (Ht' & Hp' & Hb').
+  split.
+  - apply (cohdata'_exact_dinv s' HCD'). constructor.
+    + intros i x Hx Htx Hl. destruct (N.eq_dec i id) as [->|Hi].
+      * assert (x = e') by congruence. subst x. lia.
+      * exact (di_empty s HD i x (bts_stream_back i x Hx Htx Hi) Htx Hl).
+    + exact (fc2_exact s s' r r' rids mfids dids rids mfids dids id e e' HCD HSD HD HFA HCD' HSD'
+               Hslen bts_sys Hlen Hid He He' bts_oth bts_count).
+    + intros i x l Hx Htx Hp Hb Hl. destruct (N.eq_dec i id) as [->|Hi].
+      * assert (x = e') by congruence. subst x. rewrite Hch' in Hl. injection Hl as <-. exact Hexact.
+      * pose proof (bts_stream_back i x Hx Htx Hi) as Hx0.
+        destruct (di_small s HD i x Hx0 Htx Hp Hb) as (l0 & Hl0 & Hll).
+        pose proof (bts_chain l0 (d_start x) Hl0). congruence.
+    + exact (fc2_fcover s s' r r' rids mfids dids rids mfids dids id e e' HCD HSD HD HFA HCD' HSD'
+               Hslen bts_sys Hlen Hid He He' bts_oth bts_count).
+    + intros y w Hy Hw.
+      destruct (in_dec N.eq_dec y news) as [Hin|Hout].
+      * exists id, e', news. auto 10.
+      * pose proof (nthN_Some_lt _ _ _ _ Hy) as Hlt.
+        destruct (Htight y Hlt) as [Hlt0|Hcn]; [|contradiction].
+        rewrite (Hframe y Hout Hlt0) in Hy.
+        destruct (di_mini_cover s HD y w Hy Hw) as (i & Hi). exists i. exact (bts_mowns_fwd i y Hi).
+  - exact (fc2_freeall s s' r r' rids mfids dids rids mfids dids id e e' HCD HSD HD HFA HCD' HSD'
+             Hslen bts_sys Hlen Hid He He' bts_oth bts_count).
+Qed.
+End BigToSmall.
+
+(* ---- migration by resize: a large stream becomes small ---- *)
+Theorem resize_big_to_small_dinv : forall s id V new_len,
+  CohData' s -> DInv s -> FreeAll s -> big_content s id V ->
+  0 < new_len -> new_len < MINI_STREAM_CUTOFF ->
+  SA.mini_room s (SA.msectors new_len) -> RootFits s (SA.msectors new_len) ->
+  exists s', resize id new_len s = (s', Ok tt) /\ CohData' s' /\ DInv s' /\ FreeAll s'.
+Proof.
+  intros s id V new_len HCD HD HFA HB Hpos Hcut Hmr Hrf.
+  destruct (resize_big_to_small_cohdata' s id V new_len HCD HB Hpos Hcut Hmr Hrf) as (s0 & R0 & HCD0 & _).
+  destruct Hmr as (r0 & rids0 & mfids0 & dids0 & SW0 & Hroom).
+  pose proof HCD as [HC (r & rids & mfids & dids & HSD) HF Hax]. pose proof HSD as [SW Hmdj].
+  destruct (swf_witness_fun _ _ _ _ _ _ _ _ _ _ _ SW SW0) as (-> & -> & -> & ->). clear SW0.
+  pose proof HB as (e & ids & He & Ht & Hbig & Hc & Hg & Hle & HV).
+  pose proof (SA.sw_m _ _ _ _ _ _ SW) as W.
+  pose proof (SA.small_not_root _ _ _ _ _ _ _ W He Ht) as Hidr.
+  assert (Hne : ids <> []) by (eapply StoreProofs.ids_nonempty; eassumption).
+  destruct (StoreProofs.chain_ids_head _ _ _ Hc Hne) as (Hst & tl0 & Eids).
+  destruct (free_whole_cohX s r rids mfids dids id e ids HCD HSD He (conj Ht Hbig) Hc)
+    as (s1 & Efree & HX1 & HQ & Ho1 & Fr1 & N1).
+  destruct (SA.Q_fields s s1 HQ) as (Hmf & Hmfr & Hms & Hd & Hds & Hv & Hsl).
+  pose proof HX1 as (HC1 & HF1 & SW1 & _).
+  pose proof (SA.sw_m _ _ _ _ _ _ SW1) as W1.
+  unfold SA.msectors in *.
+  set (tmp := takeN new_len (dropN 0 (chain_content s ids))).
+  assert (Htmp : tmp = takeN new_len V).
+  { unfold tmp. rewrite dropN_0, HV. symmetry. apply takeN_takeN. rewrite CUTOFF_val in *. lia. }
+  assert (Hltmp : lenN tmp = new_len).
+  { rewrite Htmp, lenN_takeN, (StoreProofs.big_content_len _ _ _ _ HB He). rewrite CUTOFF_val in *. lia. }
+  assert (Hp0 : path (minifat s1) (hd END_OF_CHAIN []) []) by constructor.
+  assert (Hroom1 : SA.mroom s1 rids mfids ((0 + lenN tmp + 63) / 64 - lenN (@nil N))).
+  { cbn [lenN]. rewrite N.add_0_l, N.sub_0_r, Hltmp.
+    apply (SA.mroom_same s s1); [rewrite Hmf; reflexivity | exact Hmfr | exact Hsl | exact Hroom]. }
+  destruct (mchain_write_all_tight s1 [] 0 tmp r rids mfids dids W1 Hp0) as (s2 & news1 & Ew & T2).
+  { cbn [lenN]. lia. }
+  { exact Hroom1. }
+  destruct (SA.mchain_write_all_alloc s1 [] 0 tmp r rids mfids dids W1 Hp0)
+    as (s2' & news & r2 & Ew' & W2 & P2 & Ln & Hfit & F2 & Hc2 & M2).
+  { cbn [lenN]. lia. }
+  { exact Hroom1. }
+  rewrite Ew in Ew'. injection Ew' as <- Enw. cbn [app] in *. subst news1.
+  cbn [lenN] in *. rewrite N.add_0_l in *. rewrite N.sub_0_r in Ln. rewrite Hltmp in *.
+  assert (Hn2 : nthN (dirs s2) id = Some e).
+  { rewrite (SA.mframe_entry _ _ _ _ _ _ id M2 Hidr), Hd. exact He. }
+  destruct (SA.finish_small s2 id e r2 rids mfids dids news new_len W2 Hn2 Ht P2)
+    as (s' & Eu & Hsm' & W' & M3); [lia | lia | lia |].
+  assert (M13 : SA.mframe s1 s' id rids mfids dids news).
+  { eapply SA.mframe_trans; [apply SA.mframe_weaken_id; exact M2 | exact M3
+                         | intros x Hx; exact Hx | intros x Hx; exact Hx]. }
+  destruct (SA.after_opX s1 s' r r2 rids mfids dids (SA.Xid id) id _ [] news _
+              SW1 ltac:(intros j E; exact E) W' Hsm' F2
+              ltac:(intros j e0 m _ _ _ _ x []) M13) as [SW' Ho2].
+  assert (R : resize id new_len s = (s', Ok tt)).
+  { unfold resize. sred.
+    rewrite (stream_entry_ok s id e He Ht). sred.
+    assert (E0 : (MAX_REGULAR_SECTOR * slen s <? new_len) = false).
+    { pose proof (ChainProofs.slen_pos s). apply N.ltb_ge.
+      rewrite MAXREG_val. rewrite CUTOFF_val in Hcut. nia. }
+    rewrite E0. sred.
+    rewrite (mask_check_false s new_len) by (apply small_fits_mask; lia). sred.
+    assert (E2 : (d_start e =? END_OF_CHAIN) = false) by lia. rewrite E2.
+    assert (E3 : (d_len e <? MINI_STREAM_CUTOFF) = false) by lia. rewrite E3.
+    assert (E4 : (new_len =? 0) = false) by lia. rewrite E4.
+    assert (E5 : (new_len <? MINI_STREAM_CUTOFF) = true) by lia. rewrite E5.
+    assert (E6 : (d_len e <=? new_len) = false) by lia. rewrite E6.
+    rewrite (chain_new_exec s _ IZero ids Hc).
+    rewrite (chain_read_spec s (mkChain IZero ids 0) new_len Hg)
+      by (unfold chain_len; cbn [c_ids c_off]; rewrite CUTOFF_val in *; lia).
+    cbn [c_init c_ids c_off]. fold tmp.
+    assert (Ecs : chain_start (mkChain IZero ids (0 + new_len)) = d_start e)
+      by (rewrite Eids; reflexivity).
+    rewrite Ecs, Efree.
+    rewrite (SA.mchain_new_eoc s1). rewrite Ew.
+    rewrite SA.mchain_start_hd. exact Eu. }
+  assert (s0 = s') by congruence. subst s0.
+  assert (Hmfeq : minifat s' = minifat s2)
+    by exact (update_entry_minifat s2 s' id e _ _ r2 rids mfids dids W2 Hn2 Eu).
+  pose proof Hsm' as (Hnth' & Ht' & Hcut2 & Hpos2 & Hch2 & _).
+  pose proof M13 as (Msh & Mlen & Moth & _ & _ & Mml & Mfr).
+  destruct Msh as (Zn & Zv & _ & _ & Zfat & Zfree & Zdifat & Zds & Zms).
+  assert (Hsl' : slen s' = slen s) by (unfold slen; rewrite Zv, Hv; reflexivity).
+  destruct (big_to_small_dinv s s' r r2 rids mfids dids id e
+              (set_start_len e (hd END_OF_CHAIN news) new_len) ids news
+              HCD HSD HD HFA HCD0 (conj SW' Hmdj) Hsl') as [HD' HFA']; try assumption.
+  - apply difat_len_mono; [exact HC|exact (cd_coh s' HCD0)|exact Hsl'|]. rewrite Zn, N1. lia.
+  - rewrite Mlen, Hd. reflexivity.
+  - split; assumption.
+  - exact (SA.small_at_entry _ _ _ _ _ _ Hsm').
+  - rewrite ceil64. cbn [set_start_len d_len]. rewrite Ln. f_equal. lia.
+  - intros j Hr Hj. rewrite (Moth j Hr Hj), Hd. reflexivity.
+  - rewrite Zn, N1, Zfree, Fr1, CodecProofs.lenN_app. lia.
+  - rewrite <- Hmf. exact Mml.
+  - intros y Hy Hlt. rewrite <- Hmf in Hlt |- *. exact (Mfr y Hy Hlt).
+  - intros x Hx. rewrite <- Hmf. exact (F2 x Hx).
+  - intros y Hy. rewrite Hmfeq in Hy. rewrite <- Hmf. exact (T2 y Hy).
+  - exists s'. auto.
+Qed.
+
+(* ================================================================== *)
+(* 16. the histories of DataPersist2.persist_data_history2, all of them *)
+(* ================================================================== *)
+Lemma ResizeCase_split : forall s id n, ResizeCase s id n ->
+  ResizeCaseF s id n \/
+  (exists V, big_content s id V /\ 0 < n /\ n < MINI_STREAM_CUTOFF /\
+     SA.mini_room s (SA.msectors n) /\ RootFits s (SA.msectors n)).
+Proof.
+  intros s id n H. unfold ResizeCase in H.
+  destruct H as [H|[H|[H|[H|[H|[H|[H|[H|[H|[H|H]]]]]]]]]].
+  - left; left; left; left. left. exact H.
+  - left; left; left; left. right; left. exact H.
+  - left; left; left; left. right; right; left. exact H.
+  - left; left; left; left. right; right; right; left. exact H.
+  - left; left. right; left. exact H.
+  - left; left. right; right. exact H.
+  - left; left; left; left. right; right; right; right; left. exact H.
+  - left. right. exact H.
+  - right. exact H.
+  - left; left; left; left. right; right; right; right; right. exact H.
+  - left; left; left. right. exact H.
+Qed.
+
+Lemma WriteCase_WriteCaseF : forall s id off buf, WriteCase s id off buf -> WriteCaseF s id off buf.
+Proof.
+  intros s id off buf H. unfold WriteCase in H.
+  destruct H as [H|[H|[H|[H|[H|H]]]]].
+  - left; left. left. exact H.
+  - left. right; left. exact H.
+  - left. right; right. exact H.
+  - left; left. right; left. exact H.
+  - right. exact H.
+  - left; left. right; right. exact H.
+Qed.
+
+Theorem resize_case_w2 : forall s id n,
+  W2 s -> ResizeCase s id n -> exists s', resize id n s = (s', Ok tt) /\ W2 s'.
+Proof.
+  intros s id n HW HR0. destruct (ResizeCase_split s id n HR0) as [HR|(V & HB & H1 & H2 & H3 & H4)];
+    [exact (resize_caseF_w2 s id n HW HR)|].
+  pose proof HW as (HT & HD & HFA & HTd). pose proof (proj1 HT) as HCD.
+  destruct (resize_case_cohtree s id n HT HR0) as (s0 & R0 & HT0 & _).
+  destruct (big_content_stream s id V HB) as (e & Hn & Ht).
+  destruct (resize_big_to_small_dinv s id V n HCD HD HFA HB H1 H2 H3 H4) as (s' & R & _ & HD' & HFA').
+  assert (s0 = s') by congruence. subst s0.
+  exists s'. split; [exact R|]. apply (w2_after s s' id e HW Hn Ht HT0 HD' HFA').
+  pose proof (framesR_resize id n s) as D. rewrite R in D. exact D.
+Qed.
+
+Theorem write_case_w2 : forall s id off buf,
+  W2 s -> WriteCase s id off buf -> exists s', write_data id off buf s = (s', Ok tt) /\ W2 s'.
+Proof.
+  intros s id off buf HW HC. exact (write_caseF_w2 s id off buf HW (WriteCase_WriteCaseF s id off buf HC)).
+Qed.
+
+Lemma w2_wr2 : forall id off bs s, W2 s -> CWd2 id off bs s ->
+  W2 (fst (write_data id off bs s)) /\ Rtriv id s (fst (write_data id off bs s)).
+Proof.
+  intros id off bs s HG HC. destruct (write_case_w2 s id off bs HG HC) as (s' & E & H).
+  rewrite E. split; [exact H|exact I].
+Qed.
+Lemma w2_rs2 : forall id n s, W2 s -> CRd2 id n s ->
+  W2 (fst (resize id n s)) /\ Rtriv id s (fst (resize id n s)).
+Proof.
+  intros id n s HG HC. destruct (resize_case_w2 s id n HG HC) as (s' & E & H).
+  rewrite E. split; [exact H|exact I].
+Qed.
+
+Theorem hop_run_w2_full : forall o h s, W2 s -> covered_op2 o h s -> W2 (fst (hop_run o h s)).
+Proof.
+  intros o h s HA HC.
+  assert (Rr : forall id s0, Rtriv id s0 s0) by (intros; exact I).
+  assert (Rt : forall id a b c, Rtriv id a b -> Rtriv id b c -> Rtriv id a c) by (intros; exact I).
+  pose proof (h_read_C cstate read_data write_data stream_len_of W2 Rtriv CWd2 Rr Rt w2_rd w2_sl w2_wr2) as Xread.
+  pose proof (h_fill_buf_C cstate read_data write_data stream_len_of W2 Rtriv CWd2 Rr Rt w2_rd w2_sl w2_wr2) as Xfill.
+  pose proof (h_write_C cstate write_data stream_len_of W2 Rtriv CWd2 Rr Rt w2_sl w2_wr2) as Xwrite.
+  pose proof (h_seek_C cstate write_data stream_len_of W2 Rtriv CWd2 Rr Rt w2_sl w2_wr2) as Xseek.
+  pose proof (h_set_len_C cstate write_data resize stream_len_of W2 Rtriv CWd2 CRd2 Rr Rt w2_sl w2_wr2 w2_rs2) as Xsetlen.
+  pose proof (h_flush_C cstate write_data stream_len_of W2 Rtriv CWd2 Rr Rt w2_sl w2_wr2) as Xflush.
+  pose proof (flush_changes_C cstate write_data stream_len_of W2 Rtriv CWd2 Rr Rt w2_sl w2_wr2) as Xfc.
+  destruct o; cbn [hop_run covered_op2] in *; cbv zeta; cbn [fst snd]; try exact HA.
+  - exact (proj1 (proj1 (Xread h n s HA HC))).
+  - exact (proj1 (proj1 (Xfill h s HA HC))).
+  - exact (proj1 (proj1 (Xwrite h bs s HA HC))).
+  - exact (proj1 (proj1 (Xseek h w z s HA HC))).
+  - destruct HC as [HC1 HC2]. exact (proj1 (proj1 (Xsetlen h n s HA HC1 HC2))).
+  - exact (proj1 (proj1 (Xflush h s HA HC))).
+  - exact (proj1 (proj1 (Xfc h s HA HC))).
+Qed.
+
+Theorem step_w2_full : forall f now o, W2 (cs f) -> step_ok2 f o -> W2 (cs (fst (step f now o))).
+Proof.
+  intros f now o HG Hok. unfold step_ok2 in Hok.
+  destruct (handle_slot o) as [i|] eqn:Eslot.
+  - destruct (nthN (hs f) i) as [[h|]|] eqn:Eh.
+    + destruct (step f now o) as [f' r] eqn:Es. cbn [fst].
+      destruct (step_handle_shape f now o i h f' r Eslot Eh Es) as (E1 & _).
+      rewrite E1. exact (hop_run_w2_full o h (cs f) HG (Hok h eq_refl)).
+    + rewrite (step_no_handle f now o i Eslot); [exact HG|]. intros h E. rewrite Eh in E. discriminate E.
+    + rewrite (step_no_handle f now o i Eslot); [exact HG|]. intros h E. rewrite Eh in E. discriminate E.
+  - apply step_w2E; [exact HG|]. unfold step_okE. rewrite Eslot. exact Hok.
+Qed.
+
+(* the full invariant along every history of DataPersist2.persist_data_history2 *)
+Theorem history_w2_full : forall l f,
+  W2 (cs f) -> hist_ok2 f l -> W2 (cs (fst (ReadonlyTotal.run_ops f l))).
+Proof.
+  induction l as [|[now o] t IH]; intros f HG Hrun; [exact HG|].
+  cbn [hist_ok2] in Hrun. destruct Hrun as [Hok Hrun].
+  rewrite PersistProofs.run_ops_cons. apply IH; [|exact Hrun]. apply step_w2_full; assumption.
+Qed.
+
+(* C03 along histories that write and resize streams on both sides of the
+   cutoff with allocation and release of sectors and mini sectors, migrate in
+   both directions, remove streams with data, reopen the file: after every
+   prefix the independent checker accepts the bytes *)
+Theorem wf_data_history_full : forall (l1 l2 : list (N * op)) f,
+  W2 (cs f) -> hist_ok2 f (l1 ++ l2) ->
+  wf_check (concat_img (img (cs (fst (ReadonlyTotal.run_ops f l1))))) = 0.
+Proof.
+  intros l1 l2 f HG Hrun. apply w2_image_wf.
+  apply history_w2_full; [exact HG|]. eapply hist_ok2_app. exact Hrun.
+Qed.
+
+(* non-vacuity of the full theorem: DataPersist2's Example6.hist3 on the file
+   fH ("/b" 5000 bytes, "/c" 70 bytes in the mini stream, "/d" empty, two mini
+   sectors in the mini free list): "/b" migrates large -> small (ten sectors
+   released, two mini sectors reused), "/c" migrates small -> large, "/d" gets
+   its first small write, the file is reopened *)
+Module Example12.
+  Import HandleFrame.Example DataPersist.Example Example1 Example3 Example4 Example5 Example6.
+
+  Definition u1 : fstate := Eval vm_compute in fst (step fA 0 (OCreateNewStream 2 [47; 99])).
+  Definition u3 : fstate :=
+    Eval vm_compute in fst (step (fst (step u1 0 (OHWrite 2 (repeatN 7 70)))) 0 (OHFlush 2)).
+  Definition u4 : fstate := Eval vm_compute in fst (step u3 0 (OCreateNewStream 3 [47; 100])).
+
+  Lemma fH_tidy : Tidy (dirs (cs fH)).
+  Proof.
+    assert (T0 : Tidy (dirs (cs fA))) by exact (proj2 (proj2 (proj2 Example7.fA_w2))).
+    assert (T1 : Tidy (dirs (cs u1))).
+    { apply (Examples.tidy_after_create fA 2 [47; 99] u1 (Ok VUnit) T0);
+        [vm_compute; reflexivity|vm_compute; reflexivity|reflexivity]. }
+    assert (T3 : Tidy (dirs (cs u3))) by (apply (relen_b_tidy (dirs (cs u1)) (dirs (cs u3))); [vm_compute; reflexivity|exact T1]).
+    assert (T4 : Tidy (dirs (cs u4))).
+    { apply (Examples.tidy_after_create u3 3 [47; 100] u4 (Ok VUnit) T3);
+        [vm_compute; reflexivity|vm_compute; reflexivity|reflexivity]. }
+    apply (remove_stream_tidy_data [47; 97] (cs u4) (cs fH) T4). vm_compute. reflexivity.
+  Qed.
+
+  Lemma fH_w2 : W2 (cs fH).
+  Proof.
+    split; [exact fH_ct|].
+    split; [apply dinv_b_sound; vm_compute; reflexivity|].
+    split; [apply freeall_b_sound; vm_compute; reflexivity|exact fH_tidy].
+  Qed.
+
+  Example hist3_wf : forall l1 l2, hist3 = l1 ++ l2 ->
+    wf_check (concat_img (img (cs (fst (ReadonlyTotal.run_ops fH l1))))) = 0.
+  Proof.
+    intros l1 l2 E. apply (wf_data_history_full l1 l2 fH fH_w2). rewrite <- E. exact hist3_ok.
+  Qed.
+
+  Example hist3_w2 : W2 (cs (fst (ReadonlyTotal.run_ops fH hist3))).
+  Proof. exact (history_w2_full hist3 fH fH_w2 hist3_ok). Qed.
+
+  Example hist3_evaluated :
+    let s := cs (fst (ReadonlyTotal.run_ops fH hist3)) in
+    wf_check (concat_img (img s)) = 0 /\ dinv_b s = true /\ freeall_b s = true.
+  Proof. repeat split; vm_compute; reflexivity. Qed.
+
+  (* and Example4.hist2 through the full theorem *)
+  Example hist2_wf_full : forall l1 l2, hist2 = l1 ++ l2 ->
+    wf_check (concat_img (img (cs (fst (ReadonlyTotal.run_ops fA l1))))) = 0.
+  Proof.
+    intros l1 l2 E. apply (wf_data_history_full l1 l2 fA Example7.fA_w2). rewrite <- E. exact hist2_ok.
+  Qed.
+End Example12.
+
 (* ================================================================== *)
 (* summary                                                             *)
 (* ================================================================== *)
@@ -2814,3 +4774,73 @@ Print Assumptions history_w2D.
 Print Assumptions wf_data_history4.
 Print Assumptions Example8.hist5_wf.
 Print Assumptions Example9.hist6_wf.
+Check remove_small_stream_w2.
+Check extend_tight.
+Check mchain_grow_tight.
+Check small_grow_dinv.
+Check resize_small_alloc_dinv.
+Check resize_empty_small_dinv.
+Check mchain_write_go_tight.
+Check write_small_alloc_dinv.
+Check write_empty_small_dinv.
+Check resize_caseE_w2.
+Check write_caseE_w2.
+Check step_w2E.
+Check history_w2E.
+Check wf_data_history5.
+Check Example10.hist2_wf.
+Check small_to_big_dinv.
+Check resize_small_to_big_dinv.
+Check write_small_to_big_dinv.
+Check resize_caseF_w2.
+Check write_caseF_w2.
+Check step_w2F.
+Check history_w2F.
+Check wf_data_history6.
+Check Example11.hist7_wf.
+Print Assumptions remove_small_stream_w2.
+Print Assumptions extend_tight.
+Print Assumptions mchain_grow_tight.
+Print Assumptions small_grow_dinv.
+Print Assumptions resize_small_alloc_dinv.
+Print Assumptions resize_empty_small_dinv.
+Print Assumptions mchain_write_go_tight.
+Print Assumptions write_small_alloc_dinv.
+Print Assumptions write_empty_small_dinv.
+Print Assumptions resize_caseE_w2.
+Print Assumptions write_caseE_w2.
+Print Assumptions step_w2E.
+Print Assumptions history_w2E.
+Print Assumptions wf_data_history5.
+Print Assumptions Example10.hist2_wf.
+Print Assumptions small_to_big_dinv.
+Print Assumptions resize_small_to_big_dinv.
+Print Assumptions write_small_to_big_dinv.
+Print Assumptions resize_caseF_w2.
+Print Assumptions write_caseF_w2.
+Print Assumptions step_w2F.
+Print Assumptions history_w2F.
+Print Assumptions wf_data_history6.
+Print Assumptions Example11.hist7_wf.
+Check big_to_small_dinv.
+Check resize_big_to_small_dinv.
+Check resize_case_w2.
+Check write_case_w2.
+Check hop_run_w2_full.
+Check step_w2_full.
+Check history_w2_full.
+Check wf_data_history_full.
+Check Example12.fH_w2.
+Check Example12.hist3_wf.
+Check Example12.hist2_wf_full.
+Print Assumptions big_to_small_dinv.
+Print Assumptions resize_big_to_small_dinv.
+Print Assumptions resize_case_w2.
+Print Assumptions write_case_w2.
+Print Assumptions hop_run_w2_full.
+Print Assumptions step_w2_full.
+Print Assumptions history_w2_full.
+Print Assumptions wf_data_history_full.
+Print Assumptions Example12.fH_w2.
+Print Assumptions Example12.hist3_wf.
+Print Assumptions Example12.hist2_wf_full.
